@@ -1,1034 +1,181 @@
 /-
-C07 — alignments recover exact maps, fit optimally where promised, and interpolate.
+C07 — extension: degenerate sizes, exact recovery of affine maps by thin-plate splines, generalized Procrustes.
 
-Theorems about the executable model `Core/C07Align.lean` (the same definitions the driver `Drive/C07.lean`
-runs).  Model matrices are plain functions `Fin n → Fin m → ℚ`; `toM` views them as Mathlib matrices and one
-lemma per operation (`toM_mul`, `toM_tr`, …) transports every statement to Mathlib's matrix algebra.
+`Props/C07Base.lean` holds the theorems about the single alignment constructors; this file adds
 
-Clauses of the property and where they are proved
-* exact recovery of a family member ........ `translation_recovery`, `scale_recovery`, `affine_recovers_target`,
-    `affine_exact_recovery`, `rotation_recovers_target_{mirror,2d,3d}` (+ `linear_unique_of_full_rank`),
-    `similarity_recovers_target_{mirror,2d,3d,norot}`
-* least-squares optimality .................. `translation_ls_optimal` (with the exact excess `translation_ls_excess`),
-    `affine_ls_optimal`, `rotation_ls_optimal_mirror` (all dimensions), `rotation_ls_optimal_2d`, `rotation_ls_optimal_3d`
-    (determinant-constrained Kabsch, proved — no partial clause left here)
-* never a reflection unless allowed ......... `rotation_no_reflection_2d`, `rotation_no_reflection_3d`, `rotFit_isOrth`
-* scale / similarity: centroid, size, LS rotation ... `scale_reproduces_size`, `similarity_reproduces_centroid`,
-    `similarity_reproduces_size`, `similarity_uses_ls_rotation_{mirror,2d,3d}`
-* TPS / PWA interpolate; PWA affine per triangle, continuous across edges ... `tps_interpolates`,
-    `alpha_beta_correct`, `alpha_beta_reconstruct`, `pwa_interpolates`, `triMap_affine`, `pwa_affine_in_triangle`,
-    `pwa_edge_continuity`, `pwa_on_edge`
-* aligned source / alignment error .......... `aligned_source_def`, `alignment_error_def` (constructor keeps the
-    requested target), `alignment_error_resync_zero` + `alignment_error_resync_refuted` (the constructor of the original
-    tree for affine/rotation: reported error identically 0 — DESIGN §7 #22)
-
-External numerical routines are contract parameters: `np.linalg.svd` (`SvdOK`), `np.linalg.norm` (`r ≥ 0 ∧ r·r = norm2`),
-the RBF kernel values (arbitrary).  `np.linalg.solve` / the TPS pseudo-inverse are *not* assumed: the model's solve is
-checked (`solveChecked_spec`).
+* degenerate sizes ........................ `norm2_eq_zero_iff`, `fitScaleE_none_iff`, `fitScaleE_some`, `simFitE_none_iff`,
+    `simFitE_some`, `zero_size_target_collapses` (which inputs have no finite answer — exactly the zero-size sources —
+    and what a zero-size target gives)
+* uniqueness of the size/centroid fits ..... `scale_unique`, `similarity_norot_unique`
+* TPS recovers affine maps exactly ......... `tpsL_mul_affineCoef`, `tps_affine_recovery`, `tps_affine_no_bending`,
+    `tps_affine_exact`
+* TPS as coded (truncated SVD) ............. `tps_svd_product`, `tps_svd_interpolates`, `tps_svd_miss`, `tpsL_symm`,
+    `tpsKeep_full`, `tps_interp_of_solves`
+* PWA from an executable certificate ....... `pwa_single_valued`, `pwa_affine_on_closed_triangle`,
+    `pwa_interpolates_cert`, `pwa_on_edge_cert` (the conformity of the triangulation is *checked* by `pwaCertB` on
+    the triangle list of every generated alignment, no longer assumed)
+* PWA recovers affine maps exactly ......... `triMap_recovers_affine`, `pwa_recovers_affine`
+* generalized Procrustes ................... `gpa_none_iff` (the `ValueError`), `gpaRec_inv`,
+    `gpa_transforms_are_alignments` (on *every* exit path each transform is the similarity alignment of its source to
+    the common final target), `gpa_reproduces_centroid`, `gpa_reproduces_size`, `gpa_uses_ls_rotation_{mirror,2d,3d}`,
+    `gpa_no_reflection_{2d,3d}`, `gpa_reported_target_none`, `gpa_reported_target_some`, `gpa_converged_spec`,
+    `gpa_not_converged_spec`, `gpa_nIter_le`, `gpaNewTarget_centroid`, `gpaNewTarget_size` (mean, rescale, convergence
+    test, iteration bound)
 -/
-import MenpoModel.Core.C07Align
-import Mathlib.Data.Matrix.Mul
-import Mathlib.LinearAlgebra.Matrix.Trace
-import Mathlib.Data.Matrix.Diagonal
-import Mathlib.Algebra.BigOperators.Fin
-import Mathlib.Tactic.Ring
-import Mathlib.Tactic.Abel
-import Mathlib.Tactic.Linarith
-import Mathlib.Tactic.FieldSimp
-import Mathlib.Tactic.LinearCombination
-import Mathlib.Algebra.Order.Field.Rat
-import Mathlib.Algebra.Order.BigOperators.Ring.Finset
-import Mathlib.LinearAlgebra.Matrix.Determinant.Basic
-import Mathlib.LinearAlgebra.Matrix.Adjugate
-import Mathlib.LinearAlgebra.Matrix.Notation
+import MenpoModel.Props.C07Base
 
 open Matrix
 namespace MenpoModel.C07
 
-theorem sumF_eq {n : ℕ} (f : Fin n → ℚ) : sumF f = ∑ i, f i := by
-  unfold sumF; exact List.sum_ofFn
+/-! ### degenerate sizes -/
 
-/-- view a model matrix as a Mathlib matrix -/
-def toM {n m : ℕ} (A : Mat n m) : Matrix (Fin n) (Fin m) ℚ := Matrix.of A
-
-@[simp] theorem toM_apply {n m : ℕ} (A : Mat n m) (i j) : toM A i j = A i j := rfl
-theorem toM_inj {n m : ℕ} {A B : Mat n m} (h : toM A = toM B) : A = B := by
-  funext i j; exact congrFun (congrFun h i) j
-theorem toM_mul {n k m : ℕ} (A : Mat n k) (B : Mat k m) : toM (mul A B) = toM A * toM B := by
-  ext i j; simp [mul, sumF_eq, Matrix.mul_apply]
-theorem toM_tr {n m : ℕ} (A : Mat n m) : toM (tr A) = (toM A)ᵀ := by
-  ext i j; simp [tr]
-theorem toM_sub {n m : ℕ} (A B : Mat n m) : toM (msub A B) = toM A - toM B := by
-  ext i j; simp [msub]
-theorem toM_one {n : ℕ} : toM (one : Mat n n) = 1 := by
-  ext i j; simp [one, Matrix.one_apply]
-theorem frob2_eq {n m : ℕ} (A : Mat n m) : frob2 A = trace (toM A * (toM A)ᵀ) := by
-  simp [frob2, sumF_eq, trace, Matrix.mul_apply]
-
-/-- tabulating a model matrix and reading it back is the identity: the driver's `tab`/`ofArr` steps (evaluate
-once, then look up) do not change any value it prints -/
-theorem ofArr_toArr {n m : ℕ} (A : Mat n m) : ofArr (toArr A) = A := by
-  funext i j
-  simp [ofArr, toArr, Array.getD]
-
-theorem frob2_sum {n m : ℕ} (A : Mat n m) : frob2 A = ∑ i, ∑ j, A i j * A i j := by
-  simp [frob2, sumF_eq]
-
-theorem frob2_nonneg {n m : ℕ} (A : Mat n m) : 0 ≤ frob2 A := by
-  rw [frob2_sum]
-  exact Finset.sum_nonneg fun i _ => Finset.sum_nonneg fun j _ => mul_self_nonneg _
-
-theorem frob2_eq_zero {n m : ℕ} {A : Mat n m} (h : frob2 A = 0) : ∀ i j, A i j = 0 := by
-  rw [frob2_sum] at h
-  intro i j
-  have h1 := (Finset.sum_eq_zero_iff_of_nonneg (fun i _ => Finset.sum_nonneg fun j _ => mul_self_nonneg (A i j))).1 h i (Finset.mem_univ _)
-  have h2 := (Finset.sum_eq_zero_iff_of_nonneg (fun j _ => mul_self_nonneg (A i j))).1 h1 j (Finset.mem_univ _)
-  exact mul_self_eq_zero.1 h2
-
-@[simp] theorem linPart_mkH {d : ℕ} (L : Mat d d) (t : Vec d) : linPart (mkH L t) = L := by
-  funext i j; simp [linPart, mkH]
-@[simp] theorem transPart_mkH {d : ℕ} (L : Mat d d) (t : Vec d) : transPart (mkH L t) = t := by
-  funext i; simp [transPart, mkH]
-
-theorem applyH_mkH {n d : ℕ} (L : Mat d d) (t : Vec d) (P : Mat n d) (i : Fin n) (j : Fin d) :
-    applyH (mkH L t) P i j = (∑ l, P i l * L j l) + t j := by
-  simp [applyH, sumF_eq]
-
-theorem applyH_translation {n d : ℕ} (u : Vec d) (P : Mat n d) (i : Fin n) (j : Fin d) :
-    applyH (translationH u) P i j = P i j + u j := by
-  simp [translationH, applyH_mkH, one]
-
-theorem mkH_isAff {d : ℕ} (L : Mat d d) (t : Vec d) : IsAff (mkH L t) := by
+/-- a point set has zero size exactly when all its points coincide (with the centroid) -/
+theorem norm2_eq_zero_iff {n d : ℕ} (P : Mat n d) : norm2 P = 0 ↔ ∀ i j, P i j = centroid P j := by
   constructor
-  · intro j; simp [mkH]
-  · simp [mkH]
+  · intro h i j
+    have := frob2_eq_zero h i j
+    simp only [centred] at this
+    linarith
+  · intro h
+    simp only [norm2, frob2_sum, centred]
+    apply Finset.sum_eq_zero; intro i _
+    apply Finset.sum_eq_zero; intro j _
+    rw [h i j]; ring
 
-/-- one coordinate of the translation problem -/
-theorem sum_sq_shift {n : ℕ} (hn : n ≠ 0) (f : Fin n → ℚ) (u : ℚ) :
-    ∑ i, (f i + u) * (f i + u) =
-      ∑ i, (f i + -(∑ k, f k) / n) * (f i + -(∑ k, f k) / n) + n * ((u - -(∑ k, f k) / n) * (u - -(∑ k, f k) / n)) := by
-  have hn' : (n : ℚ) ≠ 0 := Nat.cast_ne_zero.2 hn
-  have e : ∀ c : ℚ, ∑ i, (f i + c) * (f i + c) = ∑ i, f i * f i + 2 * c * ∑ i, f i + n * (c * c) := by
-    intro c
-    have : ∀ i, (f i + c) * (f i + c) = f i * f i + 2 * c * f i + c * c := fun i => by ring
-    simp only [this, Finset.sum_add_distrib, ← Finset.mul_sum, Finset.sum_const, Finset.card_univ, Fintype.card_fin, nsmul_eq_mul]
-    ring
-  rw [e u, e]
-  field_simp
-  ring
+/-- **the uniform-scale alignment has no finite answer exactly for zero-size sources** (given the `norm` contract) -/
+theorem fitScaleE_none_iff {n d : ℕ} (S : Mat n d) (rT rS : ℚ) (hS : rS * rS = norm2 S) :
+    (fitScaleE rT rS : Option (HMat d)) = none ↔ ∀ i j, S i j = centroid S j := by
+  rw [← norm2_eq_zero_iff, ← hS]
+  unfold fitScaleE normRatio
+  by_cases h : rS = 0
+  · simp [h]
+  · simp [h]
 
-theorem centroid_eq {n d : ℕ} (P : Mat n d) (j : Fin d) : centroid P j = (∑ i, P i j) / n := by
-  simp [centroid, sumF_eq]
+theorem fitScaleE_some {d : ℕ} (rT rS : ℚ) (h : rS ≠ 0) : (fitScaleE rT rS : Option (HMat d)) = some (fitScale rT rS) := by
+  simp [fitScaleE, normRatio, h, fitScale]
 
-/-- **translation is least-squares optimal**, with the exact excess of every competitor -/
-theorem translation_ls_excess {n d : ℕ} (hn : n ≠ 0) (S T : Mat n d) (u : Vec d) :
-    err2 (applyH (translationH u) S) T =
-      err2 (applyH (fitTranslation S T) S) T + n * ∑ j, (u j - fitTranslationVec S T j) * (u j - fitTranslationVec S T j) := by
-  have hn' : (n : ℚ) ≠ 0 := Nat.cast_ne_zero.2 hn
-  simp only [err2, frob2_sum, msub, fitTranslation, applyH_translation]
-  rw [Finset.sum_comm, Finset.sum_comm (f := fun i j => (S i j + fitTranslationVec S T j - T i j) * _), Finset.mul_sum,
-    ← Finset.sum_add_distrib]
-  apply Finset.sum_congr rfl
-  intro j _
-  have key := sum_sq_shift hn (fun i => S i j - T i j) (u j)
-  have ht : fitTranslationVec S T j = -(∑ k, (S k j - T k j)) / n := by
-    simp only [fitTranslationVec, centroid_eq, Finset.sum_sub_distrib]
-    field_simp; ring
-  rw [ht]
-  have e1 : ∀ c : ℚ, ∑ i, (S i j + c - T i j) * (S i j + c - T i j) = ∑ i, (S i j - T i j + c) * (S i j - T i j + c) :=
-    fun c => Finset.sum_congr rfl fun i _ => by ring
-  rw [e1, e1]
-  exact key
+/-- **the similarity alignment has no finite answer exactly for zero-size sources** -/
+theorem simFitE_none_iff {n d : ℕ} (rotation : Bool) (rT rS : ℚ) (R : Mat d d) (S T : Mat n d)
+    (hS : rS * rS = norm2 S) : simFitE rotation rT rS R S T = none ↔ ∀ i j, S i j = centroid S j := by
+  rw [← norm2_eq_zero_iff, ← hS]
+  unfold simFitE normRatio
+  by_cases h : rS = 0
+  · simp [h]
+  · simp [h]
 
-theorem translation_ls_optimal {n d : ℕ} (hn : n ≠ 0) (S T : Mat n d) (u : Vec d) :
-    err2 (applyH (fitTranslation S T) S) T ≤ err2 (applyH (translationH u) S) T := by
-  rw [translation_ls_excess hn S T u]
-  have : 0 ≤ (n : ℚ) * ∑ j, (u j - fitTranslationVec S T j) * (u j - fitTranslationVec S T j) :=
-    mul_nonneg (Nat.cast_nonneg _) (Finset.sum_nonneg fun j _ => mul_self_nonneg _)
-  linarith
+theorem simFitE_some {n d : ℕ} (rotation : Bool) (rT rS : ℚ) (R : Mat d d) (S T : Mat n d) (h : rS ≠ 0) :
+    simFitE rotation rT rS R S T = some (simFit rotation rT rS R S T) := by
+  simp [simFitE, normRatio, h]
 
-/-- exact recovery of a translation -/
-theorem translation_recovery {n d : ℕ} (hn : n ≠ 0) (S : Mat n d) (u : Vec d) :
-    fitTranslation S (applyH (translationH u) S) = translationH u := by
-  have hn' : (n : ℚ) ≠ 0 := Nat.cast_ne_zero.2 hn
-  unfold fitTranslation
-  congr 1
-  funext j
-  simp only [fitTranslationVec, centroid_eq, applyH_translation, Finset.sum_add_distrib, Finset.sum_const,
-    Finset.card_univ, Fintype.card_fin, nsmul_eq_mul]
-  field_simp; ring
-
-/-! ### affine -/
-
-theorem matEqB_eq {n m : ℕ} {A B : Mat n m} (h : matEqB A B = true) : A = B := by
+/-- **zero-size target**: the similarity alignment (either variant, any rotation witness) sends every source point
+onto the single target point — the target is reproduced exactly -/
+theorem zero_size_target_collapses {n d : ℕ} (rotation : Bool) (rT rS : ℚ) (R : Mat d d) (S T : Mat n d)
+    (hT : rT * rT = norm2 T) (hT0 : norm2 T = 0) : applyH (simFit rotation rT rS R S T) S = T := by
+  have hr : rT = 0 := by
+    have : rT * rT = 0 := by rw [hT, hT0]
+    exact mul_self_eq_zero.1 this
+  have hpt := (norm2_eq_zero_iff T).1 hT0
   funext i j
-  simp only [matEqB, List.all_eq_true, List.mem_finRange, true_implies, beq_iff_eq] at h
-  exact h i j
+  cases rotation
+  · rw [applyH_simFit_norot, hr, hpt i j]; simp
+  · rw [applyH_simFit_rot, hr, hpt i j]
+    simp [mul, sumF_eq, simAlignedSrc, applyH_simP0]
 
-theorem solveChecked_spec {k p : ℕ} {G : Mat k k} {Y X : Mat k p} (h : solveChecked G Y = some X) : mul G X = Y := by
-  unfold solveChecked at h
-  dsimp only at h
-  split at h
-  · exact absurd h (by simp)
-  · split at h
-    · rename_i hc
-      have := Option.some.inj h
-      subst this
-      exact matEqB_eq hc
-    · exact absurd h (by simp)
+/-! ### uniqueness: the scale / translate∘scale fits are the only family members that reproduce size (and centroid) -/
 
-/-- what `affineFit` returns satisfies the normal equations `(A Aᵀ) Hᵀ = A Bᵀ` -/
-theorem affineFit_normal {n d : ℕ} {S T : Mat n d} {H : HMat d} (h : affineFit S T = some H) :
-    mul (mul (hpoints S) (tr (hpoints S))) (tr H) = mul (hpoints S) (tr (hpoints T)) := by
-  unfold affineFit at h
-  simp only [Option.map_eq_some_iff] at h
-  obtain ⟨X, hX, rfl⟩ := h
-  have := solveChecked_spec hX
-  have e : tr (tr X) = X := rfl
-  rw [e]; exact this
-
-def mfrob2 {m n : ℕ} (A : Matrix (Fin m) (Fin n) ℚ) : ℚ := trace (A * Aᵀ)
-
-theorem mfrob2_nonneg {m n : ℕ} (A : Matrix (Fin m) (Fin n) ℚ) : 0 ≤ mfrob2 A := by
-  unfold mfrob2
-  simp only [trace, diag, mul_apply, transpose_apply]
-  exact Finset.sum_nonneg fun i _ => Finset.sum_nonneg fun j _ => mul_self_nonneg _
-
-/-- normal equations ⇒ minimal Frobenius residual among *all* matrices -/
-theorem normal_eq_optimal {m n p : ℕ} (A : Matrix (Fin m) (Fin n) ℚ) (B : Matrix (Fin p) (Fin n) ℚ)
-    (M M' : Matrix (Fin p) (Fin m) ℚ) (hne : (A * Aᵀ) * Mᵀ = A * Bᵀ) :
-    mfrob2 (M * A - B) ≤ mfrob2 (M' * A - B) := by
-  have horth : (M * A - B) * Aᵀ = 0 := by
-    have h1 : ((A * Aᵀ) * Mᵀ)ᵀ = (A * Bᵀ)ᵀ := by rw [hne]
-    simp only [transpose_mul, transpose_transpose] at h1
-    rw [Matrix.sub_mul, Matrix.mul_assoc, ← h1]
-    simp
-  set D := M' - M with hD
-  have hsplit : M' * A - B = (M * A - B) + D * A := by
-    rw [hD, Matrix.sub_mul]; abel
-  have hcross : trace ((M * A - B) * (D * A)ᵀ) = 0 := by
-    rw [transpose_mul, ← Matrix.mul_assoc, horth, Matrix.zero_mul, trace_zero]
-  have hcross' : trace ((D * A) * (M * A - B)ᵀ) = 0 := by
-    rw [← trace_transpose, transpose_mul, transpose_transpose]; exact hcross
-  have : mfrob2 (M' * A - B) = mfrob2 (M * A - B) + mfrob2 (D * A) := by
-    unfold mfrob2
-    rw [hsplit, transpose_add, Matrix.add_mul, Matrix.mul_add, Matrix.mul_add, trace_add, trace_add, trace_add,
-      hcross, hcross']; ring
-  have := mfrob2_nonneg (D * A)
-  linarith
-
-theorem frob2_mfrob2 {n m : ℕ} (A : Mat n m) : frob2 A = mfrob2 (toM A) := frob2_eq A
-
-/-- residual of the homogeneous row (`0` for an affine matrix) -/
-def lastRes {n d : ℕ} (H : HMat d) (S : Mat n d) (i : Fin n) : ℚ :=
-  (∑ l : Fin d, H (Fin.last d) l.castSucc * S i l) + H (Fin.last d) (Fin.last d) - 1
-
-theorem lastRes_aff {n d : ℕ} {H : HMat d} (hH : IsAff H) (S : Mat n d) (i : Fin n) : lastRes H S i = 0 := by
-  simp [lastRes, hH.1, hH.2]
-
-theorem hres_entry {n d : ℕ} (H : HMat d) (S T : Mat n d) (i : Fin n) (j : Fin d) :
-    msub (mul H (hpoints S)) (hpoints T) j.castSucc i = applyH H S i j - T i j := by
-  simp only [msub, mul, sumF_eq, hpoints, applyH, linPart, transPart, Fin.sum_univ_castSucc]
-  simp [mul_comm]
-
-theorem hres_last {n d : ℕ} (H : HMat d) (S T : Mat n d) (i : Fin n) :
-    msub (mul H (hpoints S)) (hpoints T) (Fin.last d) i = lastRes H S i := by
-  simp only [msub, mul, sumF_eq, hpoints, lastRes, Fin.sum_univ_castSucc]
-  simp
-
-theorem frob2_hres {n d : ℕ} (H : HMat d) (S T : Mat n d) :
-    frob2 (msub (mul H (hpoints S)) (hpoints T)) = err2 (applyH H S) T + ∑ i, lastRes H S i * lastRes H S i := by
-  rw [frob2_sum, Fin.sum_univ_castSucc]
-  simp only [hres_entry, hres_last]
-  rw [Finset.sum_comm]
-  simp [err2, frob2_sum, msub]
-
-/-- **affine alignment is least-squares optimal** among all affine maps -/
-theorem affine_ls_optimal {n d : ℕ} {S T : Mat n d} {H : HMat d} (h : affineFit S T = some H)
-    (H' : HMat d) (hH' : IsAff H') : err2 (applyH H S) T ≤ err2 (applyH H' S) T := by
-  have hne := affineFit_normal h
-  have hne' : (toM (hpoints S) * (toM (hpoints S))ᵀ) * (toM H)ᵀ = toM (hpoints S) * (toM (hpoints T))ᵀ := by
-    have := congrArg toM hne
-    simpa only [toM_mul, toM_tr] using this
-  have key := normal_eq_optimal (toM (hpoints S)) (toM (hpoints T)) (toM H) (toM H') hne'
-  rw [← toM_mul, ← toM_mul, ← toM_sub, ← toM_sub, ← frob2_mfrob2, ← frob2_mfrob2, frob2_hres, frob2_hres] at key
-  have h0 : ∑ i, lastRes H' S i * lastRes H' S i = 0 := by simp [lastRes_aff hH']
-  have h1 : 0 ≤ ∑ i, lastRes H S i * lastRes H S i := Finset.sum_nonneg fun i _ => mul_self_nonneg _
-  linarith
-
-theorem err2_nonneg {n d : ℕ} (X T : Mat n d) : 0 ≤ err2 X T := frob2_nonneg _
-theorem err2_self {n d : ℕ} (X : Mat n d) : err2 X X = 0 := by simp [err2, frob2_sum, msub]
-theorem err2_eq_zero {n d : ℕ} {X T : Mat n d} (h : err2 X T = 0) : X = T := by
-  funext i j
-  have := frob2_eq_zero h i j
-  simp only [msub] at this
-  linarith
-
-theorem hpoints_applyH {n d : ℕ} {H : HMat d} (hH : IsAff H) (P : Mat n d) :
-    hpoints (applyH H P) = mul H (hpoints P) := by
-  funext r i
-  refine Fin.lastCases ?_ (fun j => ?_) r
-  · simp only [mul, sumF_eq, hpoints, Fin.sum_univ_castSucc]
-    simp [hH.1, hH.2]
-  · simp only [mul, sumF_eq, hpoints, applyH, linPart, transPart, Fin.sum_univ_castSucc]
-    simp [mul_comm]
-
-/-- **exact recovery, target form**: if the target is an affine image of the source, the fitted map sends the
-source exactly onto it (no rank hypothesis needed) -/
-theorem affine_recovers_target {n d : ℕ} {S : Mat n d} {H₀ H : HMat d} (h₀ : IsAff H₀)
-    (h : affineFit S (applyH H₀ S) = some H) : applyH H S = applyH H₀ S := by
-  have := affine_ls_optimal h H₀ h₀
-  rw [err2_self] at this
-  exact err2_eq_zero (le_antisymm this (err2_nonneg _ _))
-
-/-- **exact recovery, matrix form**: with `a·aᵀ` invertible the fitted matrix *is* the generating one -/
-theorem affine_exact_recovery {n d : ℕ} {S : Mat n d} {H₀ H : HMat d} (h₀ : IsAff H₀)
-    (h : affineFit S (applyH H₀ S) = some H)
-    (Gi : HMat d) (hGi : mul Gi (mul (hpoints S) (tr (hpoints S))) = one) : H = H₀ := by
-  have hne := affineFit_normal h
-  rw [hpoints_applyH h₀] at hne
-  have e := congrArg toM hne
-  have eG := congrArg toM hGi
-  simp only [toM_mul, toM_tr, toM_one, transpose_mul] at e eG
-  -- G Hᵀ = A Aᵀ H₀ᵀ = G H₀ᵀ
-  have e2 : (toM H)ᵀ = (toM H₀)ᵀ := by
-    set G := toM (hpoints S) * (toM (hpoints S))ᵀ with hG
-    have e' : G * (toM H)ᵀ = G * (toM H₀)ᵀ := by rw [e, hG, Matrix.mul_assoc]
-    calc (toM H)ᵀ = (toM Gi * G) * (toM H)ᵀ := by rw [eG, Matrix.one_mul]
-      _ = toM Gi * (G * (toM H₀)ᵀ) := by rw [Matrix.mul_assoc, e']
-      _ = (toM H₀)ᵀ := by rw [← Matrix.mul_assoc, eG, Matrix.one_mul]
-  apply toM_inj
-  have := congrArg Matrix.transpose e2
-  simpa using this
-
-/-! ### rotation -/
-
-/-- orthogonal matrix (either one-sided identity implies the other for square matrices; both are kept) -/
-structure IsOrth {d : ℕ} (Q : Mat d d) : Prop where
-  left : mul (tr Q) Q = one
-  right : mul Q (tr Q) = one
-
-def diagM {d : ℕ} (D : Vec d) : Mat d d := fun i j => if i = j then D i else 0
-
-/-- the contract of `U, D, Vt = np.linalg.svd(M)` -/
-structure SvdOK {d : ℕ} (M U : Mat d d) (D : Vec d) (Vt : Mat d d) : Prop where
-  orthU : IsOrth U
-  orthV : IsOrth Vt
-  fact : mul U (mul (diagM D) Vt) = M
-  nonneg : ∀ i, 0 ≤ D i
-  sorted : ∀ i j : Fin d, i.val ≤ j.val → D j ≤ D i
-
-theorem svdContractB_sound {d : ℕ} {M U : Mat d d} {D : Vec d} {Vt : Mat d d}
-    (h : svdContractB M U D Vt = true) : SvdOK M U D Vt := by
-  simp only [svdContractB, Bool.and_eq_true, List.all_eq_true, List.mem_finRange, true_implies,
-    decide_eq_true_eq] at h
-  obtain ⟨⟨⟨⟨⟨⟨h1, h2⟩, h3⟩, h4⟩, h5⟩, h6⟩, h7⟩ := h
-  exact ⟨⟨matEqB_eq h1, matEqB_eq h2⟩, ⟨matEqB_eq h3, matEqB_eq h4⟩, matEqB_eq h5, h6, h7⟩
-
-theorem toM_diagM {d : ℕ} (D : Vec d) : toM (diagM D) = diagonal D := by
-  ext i j; simp [diagM, diagonal_apply]
-
-theorem applyH_rotation {n d : ℕ} (R : Mat d d) (P : Mat n d) : applyH (rotationH R) P = mul P (tr R) := by
-  funext i j
-  simp [rotationH, applyH_mkH, mul, tr, sumF_eq]
-
-theorem orth_diag_le_one {n : ℕ} (W : Matrix (Fin n) (Fin n) ℚ) (h : W * Wᵀ = 1) (i : Fin n) : W i i ≤ 1 := by
-  have h1 : (W * Wᵀ) i i = 1 := by rw [h]; simp
-  rw [Matrix.mul_apply] at h1
-  simp only [Matrix.transpose_apply] at h1
-  have h2 : W i i * W i i ≤ ∑ j, W i j * W i j :=
-    Finset.single_le_sum (f := fun j => W i j * W i j) (fun j _ => mul_self_nonneg _) (Finset.mem_univ i)
-  nlinarith [mul_self_nonneg (W i i - 1), mul_self_nonneg (W i i + 1)]
-
-theorem trace_diag_mul {n : ℕ} (d : Fin n → ℚ) (W : Matrix (Fin n) (Fin n) ℚ) :
-    trace (diagonal d * W) = ∑ i, d i * W i i := by
-  simp [trace, Matrix.diagonal_mul]
-
-/-- the change of variables behind Kabsch: `tr(Mᵀ X) = tr(D · Uᵀ X V)` -/
-theorem kabsch_key {n : ℕ} (M U V : Matrix (Fin n) (Fin n) ℚ) (d : Fin n → ℚ)
-    (hM : M = U * diagonal d * Vᵀ) (X : Matrix (Fin n) (Fin n) ℚ) :
-    trace (Mᵀ * X) = trace (diagonal d * (Uᵀ * X * V)) := by
-  rw [hM]
-  simp only [transpose_mul, transpose_transpose, diagonal_transpose]
-  rw [Matrix.mul_assoc, Matrix.mul_assoc, trace_mul_comm]
-  simp only [Matrix.mul_assoc]
-
-theorem kabsch_W_orth {n : ℕ} (U V Q : Matrix (Fin n) (Fin n) ℚ) (hU : Uᵀ * U = 1) (hV' : V * Vᵀ = 1)
-    (hQ : Q * Qᵀ = 1) : (Uᵀ * Q * V) * (Uᵀ * Q * V)ᵀ = 1 := by
-  simp only [transpose_mul, transpose_transpose]
-  calc Uᵀ * Q * V * (Vᵀ * (Qᵀ * U)) = Uᵀ * (Q * ((V * Vᵀ) * (Qᵀ * U))) := by simp only [Matrix.mul_assoc]
-    _ = Uᵀ * ((Q * Qᵀ) * U) := by rw [hV']; simp only [Matrix.one_mul, Matrix.mul_assoc]
-    _ = 1 := by rw [hQ, Matrix.one_mul, hU]
-
-/-- Kabsch without the determinant constraint -/
-theorem kabsch_mirror {n : ℕ} (M U V Q : Matrix (Fin n) (Fin n) ℚ) (d : Fin n → ℚ)
-    (hM : M = U * diagonal d * Vᵀ) (hU : Uᵀ * U = 1) (hV : Vᵀ * V = 1) (hV' : V * Vᵀ = 1)
-    (hd : ∀ i, 0 ≤ d i) (hQ : Q * Qᵀ = 1) :
-    trace (Mᵀ * Q) ≤ trace (Mᵀ * (U * Vᵀ)) := by
-  rw [kabsch_key M U V d hM Q, kabsch_key M U V d hM (U * Vᵀ)]
-  have hW := kabsch_W_orth U V Q hU hV' hQ
-  have hI : Uᵀ * (U * Vᵀ) * V = 1 := by
-    calc Uᵀ * (U * Vᵀ) * V = (Uᵀ * U) * (Vᵀ * V) := by simp only [Matrix.mul_assoc]
-      _ = 1 := by rw [hU, hV, Matrix.one_mul]
-  rw [trace_diag_mul, trace_diag_mul, hI]
-  apply Finset.sum_le_sum
-  intro i _
-  have := orth_diag_le_one _ hW i
-  simp only [Matrix.one_apply_eq]
-  nlinarith [hd i]
-
-/-- `‖S Qᵀ − T‖² = ‖S‖² + ‖T‖² − 2 tr((TᵀS)ᵀ Q)` for orthogonal `Q` -/
-theorem rot_err_expand {n d : ℕ} (S T : Mat n d) (Q : Mat d d) (hQ : mul (tr Q) Q = one) :
-    err2 (mul S (tr Q)) T = frob2 S + frob2 T - 2 * trace ((toM (corr S T))ᵀ * toM Q) := by
-  have hQ' : (toM Q)ᵀ * toM Q = 1 := by
-    have := congrArg toM hQ; simpa only [toM_mul, toM_tr, toM_one] using this
-  simp only [err2, frob2_eq, toM_sub, toM_mul, toM_tr, corr, transpose_transpose, transpose_mul, transpose_sub]
-  set s := toM S; set t := toM T; set q := toM Q
-  have e1 : trace (s * qᵀ * (q * sᵀ)) = trace (s * sᵀ) := by
-    rw [Matrix.mul_assoc, ← Matrix.mul_assoc qᵀ, hQ', Matrix.one_mul]
-  have e2 : trace (t * (q * sᵀ)) = trace (sᵀ * t * q) := by
-    rw [← Matrix.mul_assoc, trace_mul_comm, ← Matrix.mul_assoc]
-  have e3 : trace (s * qᵀ * tᵀ) = trace (sᵀ * t * q) := by
-    rw [← trace_transpose]; simp only [transpose_mul, transpose_transpose]
-    rw [← Matrix.mul_assoc, trace_mul_comm, ← Matrix.mul_assoc]
-  rw [Matrix.sub_mul, Matrix.mul_sub, Matrix.mul_sub, trace_sub, trace_sub, trace_sub, e1, e2, e3]
-  ring
-
-theorem rotFit_mirror {d : ℕ} (U Vt : Mat d d) : rotFit true U Vt = mul U Vt := by simp [rotFit]
-
-theorem IsOrth.toM_left {d : ℕ} {Q : Mat d d} (h : IsOrth Q) : (toM Q)ᵀ * toM Q = 1 := by
-  have := congrArg toM h.left; simpa only [toM_mul, toM_tr, toM_one] using this
-theorem IsOrth.toM_right {d : ℕ} {Q : Mat d d} (h : IsOrth Q) : toM Q * (toM Q)ᵀ = 1 := by
-  have := congrArg toM h.right; simpa only [toM_mul, toM_tr, toM_one] using this
-
-theorem SvdOK.toM_fact {d : ℕ} {M U : Mat d d} {D : Vec d} {Vt : Mat d d} (h : SvdOK M U D Vt) :
-    toM M = toM U * diagonal D * ((toM Vt)ᵀ)ᵀ := by
-  have := congrArg toM h.fact
-  simp only [toM_mul, toM_diagM] at this
-  rw [← this, transpose_transpose, Matrix.mul_assoc]
-
-/-- **rotation alignment with mirroring allowed is least-squares optimal among all orthogonal maps**
-(every dimension), given the SVD contract -/
-theorem rotation_ls_optimal_mirror {n d : ℕ} (S T : Mat n d) {U Vt : Mat d d} {D : Vec d}
-    (hsvd : SvdOK (corr S T) U D Vt) (Q : Mat d d) (hQ : IsOrth Q) :
-    err2 (applyH (rotationH (rotFit true U Vt)) S) T ≤ err2 (applyH (rotationH Q) S) T := by
-  have hR : IsOrth (mul U Vt) := by
-    constructor
-    · apply toM_inj
-      simp only [toM_mul, toM_tr, toM_one, transpose_mul]
-      rw [Matrix.mul_assoc, ← Matrix.mul_assoc (toM U)ᵀ, hsvd.orthU.toM_left, Matrix.one_mul, hsvd.orthV.toM_left]
-    · apply toM_inj
-      simp only [toM_mul, toM_tr, toM_one, transpose_mul]
-      rw [Matrix.mul_assoc, ← Matrix.mul_assoc (toM Vt), hsvd.orthV.toM_right, Matrix.one_mul, hsvd.orthU.toM_right]
-  rw [rotFit_mirror, applyH_rotation, applyH_rotation, rot_err_expand S T _ hR.left, rot_err_expand S T Q hQ.left]
-  have hV : ((toM Vt)ᵀ)ᵀ * (toM Vt)ᵀ = 1 := by rw [transpose_transpose]; exact hsvd.orthV.toM_right
-  have hV' : (toM Vt)ᵀ * ((toM Vt)ᵀ)ᵀ = 1 := by rw [transpose_transpose]; exact hsvd.orthV.toM_left
-  have := kabsch_mirror (toM (corr S T)) (toM U) (toM Vt)ᵀ (toM Q) D hsvd.toM_fact hsvd.orthU.toM_left hV hV'
-    hsvd.nonneg hQ.toM_right
-  rw [transpose_transpose] at this
-  rw [toM_mul]
-  linarith
-
-theorem tr_le_two (W : Matrix (Fin 2) (Fin 2) ℚ) (h : W * Wᵀ = 1) (hd : W.det = -1) : trace W ≤ (2 : ℚ) - 2 := by
-  have h00 := congrFun (congrFun h 0) 0
-  have h11 := congrFun (congrFun h 1) 1
-  simp only [Matrix.mul_apply, Fin.sum_univ_two, transpose_apply, one_apply_eq] at h00 h11
-  rw [det_fin_two] at hd
-  simp only [trace, diag, Fin.sum_univ_two]
-  nlinarith [sq_nonneg (W 0 0 + W 1 1), sq_nonneg (W 0 1 - W 1 0)]
-
-theorem tr_le_three (W : Matrix (Fin 3) (Fin 3) ℚ) (h : W * Wᵀ = 1) (h' : Wᵀ * W = 1) (hd : W.det = -1) :
-    trace W ≤ (3 : ℚ) - 2 := by
-  have hadj : adjugate W = -Wᵀ := by
-    calc adjugate W = (Wᵀ * W) * adjugate W := by rw [h', Matrix.one_mul]
-      _ = Wᵀ * (W.det • (1 : Matrix (Fin 3) (Fin 3) ℚ)) := by rw [Matrix.mul_assoc, mul_adjugate]
-      _ = -Wᵀ := by rw [hd]; simp
-  have a00 := congrFun (congrFun hadj 0) 0
-  have a11 := congrFun (congrFun hadj 1) 1
-  have a22 := congrFun (congrFun hadj 2) 2
-  rw [adjugate_fin_three] at a00 a11 a22
-  simp at a00 a11 a22
-  have h00 := congrFun (congrFun h 0) 0
-  have h11 := congrFun (congrFun h 1) 1
-  have h22 := congrFun (congrFun h 2) 2
-  simp only [Matrix.mul_apply, Fin.sum_univ_three, transpose_apply, one_apply_eq] at h00 h11 h22
-  simp only [trace, diag, Fin.sum_univ_three]
-  -- (1 - t)(3 + t) = Σ_{i<j} (w_ij - w_ji)²
-  have key : (1 - (W 0 0 + W 1 1 + W 2 2)) * (3 + (W 0 0 + W 1 1 + W 2 2)) =
-      (W 0 1 - W 1 0) ^ 2 + (W 0 2 - W 2 0) ^ 2 + (W 1 2 - W 2 1) ^ 2 := by
-    linear_combination (-1 : ℚ) * h00 - h11 - h22 - 2 * a00 - 2 * a11 - 2 * a22
-  by_contra hc
-  have hc := not_le.1 hc
-  have h1 : 1 - (W 0 0 + W 1 1 + W 2 2) < 0 := by linarith
-  have h2 : 0 < 3 + (W 0 0 + W 1 1 + W 2 2) := by linarith
-  have h3 := mul_neg_of_neg_of_pos h1 h2
-  nlinarith [sq_nonneg (W 0 1 - W 1 0), sq_nonneg (W 0 2 - W 2 0), sq_nonneg (W 1 2 - W 2 1)]
-
-/-- the weighted-trace bound behind the determinant-corrected Kabsch solution -/
-theorem weighted_trace_le {n : ℕ} (W : Matrix (Fin n) (Fin n) ℚ) (hW : W * Wᵀ = 1) (d : Fin n → ℚ) (l : Fin n)
-    (hmin : ∀ i, d l ≤ d i) (hl : 0 ≤ d l) (htr : trace W ≤ (n : ℚ) - 2) :
-    ∑ i, d i * W i i ≤ ∑ i, d i * (if i = l then -1 else 1) := by
-  have e1 : ∑ i, d i * W i i = ∑ i, (d i - d l) * W i i + d l * trace W := by
-    simp only [trace, diag, Finset.mul_sum, ← Finset.sum_add_distrib]
-    exact Finset.sum_congr rfl fun i _ => by ring
-  have e2 : ∑ i, d i * (if i = l then (-1 : ℚ) else 1) = ∑ i, (d i - d l) + d l * ((n : ℚ) - 2) := by
-    have : ∀ i, d i * (if i = l then (-1 : ℚ) else 1) = (d i - d l) + (d l - (if i = l then 2 * d i else 0)) := by
-      intro i; split_ifs <;> ring
-    simp only [this, Finset.sum_add_distrib, Finset.sum_sub_distrib, Finset.sum_ite_eq', Finset.mem_univ, if_true,
-      Finset.sum_const, Finset.card_univ, Fintype.card_fin, nsmul_eq_mul]
-    ring
-  rw [e1, e2]
-  have h1 : ∑ i, (d i - d l) * W i i ≤ ∑ i, (d i - d l) := by
-    apply Finset.sum_le_sum
-    intro i _
-    have := orth_diag_le_one W hW i
-    nlinarith [hmin i]
-  have h2 : d l * trace W ≤ d l * ((n : ℚ) - 2) := mul_le_mul_of_nonneg_left htr hl
-  linarith
-
-
-theorem det_two (A : Mat 2 2) : det A = (toM A).det := by
-  rw [det_fin_two]; rfl
-theorem det_three (A : Mat 3 3) : det A = (toM A).det := by
-  rw [det_fin_three]; rfl
-
-def flipVec (d : ℕ) : Fin d → ℚ := fun i => if i.val + 1 = d then -1 else 1
-
-theorem toM_flipLast {d : ℕ} : toM (flipLast : Mat d d) = diagonal (flipVec d) := by
-  ext i j; simp [flipLast, flipVec, diagonal_apply]
-
-theorem flipVec_eq {d : ℕ} (l : Fin d) (hl : l.val + 1 = d) (i : Fin d) :
-    flipVec d i = if i = l then -1 else 1 := by
-  unfold flipVec
-  have : (i.val + 1 = d) ↔ i = l := by
-    constructor
-    · intro h; exact Fin.ext (by omega)
-    · intro h; rw [h]; exact hl
-  simp only [this]
-
-theorem det_flip {d : ℕ} (hd : 0 < d) : (diagonal (flipVec d)).det = -1 := by
-  let l : Fin d := ⟨d - 1, by omega⟩
-  have hl : l.val + 1 = d := by simp [l]; omega
-  rw [det_diagonal]
-  simp only [flipVec_eq l hl]
-  rw [Finset.prod_ite_eq']
-  simp
-
-theorem flip_mul_flip {d : ℕ} : diagonal (flipVec d) * diagonal (flipVec d) = 1 := by
-  rw [diagonal_mul_diagonal, ← diagonal_one]
-  congr 1; funext i; unfold flipVec; split_ifs <;> norm_num
-
-theorem IsOrth.det_sq {d : ℕ} {Q : Mat d d} (h : IsOrth Q) : (toM Q).det * (toM Q).det = 1 := by
-  have := congrArg Matrix.det h.toM_left
-  rwa [det_mul, det_transpose, det_one] at this
-
-theorem IsOrth.mul {d : ℕ} {P Q : Mat d d} (hP : IsOrth P) (hQ : IsOrth Q) : IsOrth (mul P Q) := by
-  constructor
-  · apply toM_inj
-    simp only [toM_mul, toM_tr, toM_one, transpose_mul]
-    rw [Matrix.mul_assoc, ← Matrix.mul_assoc (toM P)ᵀ, hP.toM_left, Matrix.one_mul, hQ.toM_left]
-  · apply toM_inj
-    simp only [toM_mul, toM_tr, toM_one, transpose_mul]
-    rw [Matrix.mul_assoc, ← Matrix.mul_assoc (toM Q), hQ.toM_right, Matrix.one_mul, hP.toM_right]
-
-theorem isOrth_flipLast {d : ℕ} : IsOrth (flipLast : Mat d d) := by
-  constructor <;>
-  · apply toM_inj
-    simp only [toM_mul, toM_tr, toM_one, toM_flipLast, diagonal_transpose, flip_mul_flip]
-
-/-- the two branches of `optimal_rotation_matrix(allow_mirror=False)` -/
-theorem rotFit_false_cases {d : ℕ} (hdet : ∀ A : Mat d d, det A = (toM A).det) (U Vt : Mat d d) :
-    (0 ≤ (toM (mul U Vt)).det ∧ rotFit false U Vt = mul U Vt) ∨
-    ((toM (mul U Vt)).det < 0 ∧ rotFit false U Vt = mul U (mul flipLast Vt)) := by
-  unfold rotFit
-  simp only [Bool.not_false, Bool.true_and, decide_eq_true_eq, hdet]
-  by_cases h : (toM (mul U Vt)).det < 0
-  · right; simp [h]
-  · left; simp [h, not_lt.1 h]
-
-theorem rotFit_isOrth {d : ℕ} (b : Bool) {U Vt : Mat d d} (hU : IsOrth U) (hV : IsOrth Vt) :
-    IsOrth (rotFit b U Vt) := by
-  unfold rotFit
-  dsimp only
-  split_ifs
-  · exact hU.mul (isOrth_flipLast.mul hV)
-  · exact hU.mul hV
-
-/-- **no reflection unless mirroring was allowed** (generic form; instantiated for 2-D and 3-D below) -/
-theorem rot_no_reflection_gen {d : ℕ} (hd : 0 < d) (hdet : ∀ A : Mat d d, det A = (toM A).det)
-    {U Vt : Mat d d} (hU : IsOrth U) (hV : IsOrth Vt) : (toM (rotFit false U Vt)).det = 1 := by
-  have hsq := (hU.mul hV).det_sq
-  rcases rotFit_false_cases hdet U Vt with ⟨h0, e⟩ | ⟨h0, e⟩
-  · rw [e]; nlinarith
-  · rw [e]
-    have hm : (toM (mul U Vt)).det = -1 := by nlinarith
-    simp only [toM_mul, det_mul, toM_flipLast, det_flip hd] at hm ⊢
+theorem nonneg_sq_eq {a b : ℚ} (ha : 0 ≤ a) (hb : 0 ≤ b) (h : a * a = b * b) : a = b := by
+  have h1 : (a - b) * (a + b) = 0 := by linear_combination h
+  rcases mul_eq_zero.1 h1 with h2 | h2
+  · linarith
+  · have : a = 0 := by linarith
+    have : b = 0 := by linarith
     linarith
 
-theorem rotation_no_reflection_2d {U Vt : Mat 2 2} (hU : IsOrth U) (hV : IsOrth Vt) :
-    det (rotFit false U Vt) = 1 := by
-  rw [det_two]; exact rot_no_reflection_gen (by norm_num) det_two hU hV
-theorem rotation_no_reflection_3d {U Vt : Mat 3 3} (hU : IsOrth U) (hV : IsOrth Vt) :
-    det (rotFit false U Vt) = 1 := by
-  rw [det_three]; exact rot_no_reflection_gen (by norm_num) det_three hU hV
-
-/-- Kabsch with the determinant constraint, generic in the dimension given the trace bound for improper
-orthogonal matrices -/
-theorem rotation_ls_optimal_proper_gen {n d : ℕ} (hd : 0 < d) (hdet : ∀ A : Mat d d, det A = (toM A).det)
-    (htrb : ∀ W : Matrix (Fin d) (Fin d) ℚ, W * Wᵀ = 1 → Wᵀ * W = 1 → W.det = -1 → trace W ≤ (d : ℚ) - 2)
-    (S T : Mat n d) {U Vt : Mat d d} {D : Vec d} (hsvd : SvdOK (corr S T) U D Vt)
-    (Q : Mat d d) (hQ : IsOrth Q) (hQd : (toM Q).det = 1) :
-    err2 (applyH (rotationH (rotFit false U Vt)) S) T ≤ err2 (applyH (rotationH Q) S) T := by
-  rcases rotFit_false_cases hdet U Vt with ⟨_, e⟩ | ⟨h0, e⟩
-  · rw [e, ← rotFit_mirror]; exact rotation_ls_optimal_mirror S T hsvd Q hQ
-  · have hR : IsOrth (mul U (mul flipLast Vt)) := hsvd.orthU.mul (isOrth_flipLast.mul hsvd.orthV)
-    rw [e, applyH_rotation, applyH_rotation, rot_err_expand S T _ hR.left, rot_err_expand S T Q hQ.left]
-    have hsq := (hsvd.orthU.mul hsvd.orthV).det_sq
-    have hm : (toM (mul U Vt)).det = -1 := by nlinarith
-    simp only [toM_mul, det_mul] at hm
-    set u := toM U; set vt := toM Vt; set q := toM Q
-    have hUl : uᵀ * u = 1 := hsvd.orthU.toM_left
-    have hUr : u * uᵀ = 1 := hsvd.orthU.toM_right
-    have hVl : vtᵀ * vt = 1 := hsvd.orthV.toM_left
-    have hVr : vt * vtᵀ = 1 := hsvd.orthV.toM_right
-    have hM := hsvd.toM_fact
-    have k1 := kabsch_key (toM (corr S T)) u vtᵀ D hM q
-    have k2 := kabsch_key (toM (corr S T)) u vtᵀ D hM (u * (diagonal (flipVec d) * vt))
-    have hW1 : (uᵀ * q * vtᵀ) * (uᵀ * q * vtᵀ)ᵀ = 1 :=
-      kabsch_W_orth u vtᵀ q hUl (by rw [transpose_transpose]; exact hVl) hQ.toM_right
-    have hW2 : (uᵀ * q * vtᵀ)ᵀ * (uᵀ * q * vtᵀ) = 1 := mul_eq_one_comm.1 hW1
-    have hWd : (uᵀ * q * vtᵀ).det = -1 := by
-      rw [det_mul, det_mul, det_transpose, det_transpose, hQd]; linarith
-    have hE : uᵀ * (u * (diagonal (flipVec d) * vt)) * vtᵀ = diagonal (flipVec d) := by
-      rw [← Matrix.mul_assoc, hUl, Matrix.one_mul, Matrix.mul_assoc, hVr, Matrix.mul_one]
-    rw [toM_mul, toM_mul, toM_flipLast, k1, k2, hE, trace_diag_mul, trace_diag_mul]
-    let l : Fin d := ⟨d - 1, by omega⟩
-    have hl : l.val + 1 = d := by simp [l]; omega
-    have hmin : ∀ i, D l ≤ D i := fun i => hsvd.sorted i l (by have := i.isLt; simp [l]; omega)
-    have := weighted_trace_le _ hW1 D l hmin (hsvd.nonneg l) (htrb _ hW1 hW2 hWd)
-    simp only [diagonal_apply_eq, flipVec_eq l hl]
-    linarith
-
-/-- **2-D rotation alignment (no mirroring) is least-squares optimal among proper rotations** -/
-theorem rotation_ls_optimal_2d {n : ℕ} (S T : Mat n 2) {U Vt : Mat 2 2} {D : Vec 2} (hsvd : SvdOK (corr S T) U D Vt)
-    (Q : Mat 2 2) (hQ : IsOrth Q) (hQd : det Q = 1) :
-    err2 (applyH (rotationH (rotFit false U Vt)) S) T ≤ err2 (applyH (rotationH Q) S) T :=
-  rotation_ls_optimal_proper_gen (by norm_num) det_two (fun W h _ hd => by exact_mod_cast tr_le_two W h hd) S T hsvd Q hQ
-    (by rw [← det_two]; exact hQd)
-
-/-- **3-D rotation alignment (no mirroring) is least-squares optimal among proper rotations** -/
-theorem rotation_ls_optimal_3d {n : ℕ} (S T : Mat n 3) {U Vt : Mat 3 3} {D : Vec 3} (hsvd : SvdOK (corr S T) U D Vt)
-    (Q : Mat 3 3) (hQ : IsOrth Q) (hQd : det Q = 1) :
-    err2 (applyH (rotationH (rotFit false U Vt)) S) T ≤ err2 (applyH (rotationH Q) S) T :=
-  rotation_ls_optimal_proper_gen (by norm_num) det_three (fun W h h' hd => by exact_mod_cast tr_le_three W h h' hd) S T hsvd Q hQ
-    (by rw [← det_three]; exact hQd)
-
-/-! ### rotation: exact recovery -/
-
-theorem rotation_recovers_target_mirror {n d : ℕ} (S : Mat n d) {U Vt : Mat d d} {D : Vec d} (Q₀ : Mat d d)
-    (hQ₀ : IsOrth Q₀) (hsvd : SvdOK (corr S (applyH (rotationH Q₀) S)) U D Vt) :
-    applyH (rotationH (rotFit true U Vt)) S = applyH (rotationH Q₀) S := by
-  have := rotation_ls_optimal_mirror S _ hsvd Q₀ hQ₀
-  rw [err2_self] at this
-  exact err2_eq_zero (le_antisymm this (err2_nonneg _ _))
-
-theorem rotation_recovers_target_2d {n : ℕ} (S : Mat n 2) {U Vt : Mat 2 2} {D : Vec 2} (Q₀ : Mat 2 2)
-    (hQ₀ : IsOrth Q₀) (hd : det Q₀ = 1) (hsvd : SvdOK (corr S (applyH (rotationH Q₀) S)) U D Vt) :
-    applyH (rotationH (rotFit false U Vt)) S = applyH (rotationH Q₀) S := by
-  have := rotation_ls_optimal_2d S _ hsvd Q₀ hQ₀ hd
-  rw [err2_self] at this
-  exact err2_eq_zero (le_antisymm this (err2_nonneg _ _))
-
-theorem rotation_recovers_target_3d {n : ℕ} (S : Mat n 3) {U Vt : Mat 3 3} {D : Vec 3} (Q₀ : Mat 3 3)
-    (hQ₀ : IsOrth Q₀) (hd : det Q₀ = 1) (hsvd : SvdOK (corr S (applyH (rotationH Q₀) S)) U D Vt) :
-    applyH (rotationH (rotFit false U Vt)) S = applyH (rotationH Q₀) S := by
-  have := rotation_ls_optimal_3d S _ hsvd Q₀ hQ₀ hd
-  rw [err2_self] at this
-  exact err2_eq_zero (le_antisymm this (err2_nonneg _ _))
-
-/-- two linear maps that agree on a full-rank point set are equal -/
-theorem linear_unique_of_full_rank {n d : ℕ} (S : Mat n d) (R Q : Mat d d)
-    (Gi : Mat d d) (hGi : mul Gi (mul (tr S) S) = one)
-    (h : applyH (rotationH R) S = applyH (rotationH Q) S) : R = Q := by
-  rw [applyH_rotation, applyH_rotation] at h
-  have e := congrArg toM h
-  have eG := congrArg toM hGi
-  simp only [toM_mul, toM_tr, toM_one] at e eG
-  have e2 : (toM R)ᵀ = (toM Q)ᵀ := by
-    set G := (toM S)ᵀ * toM S with hG
-    have e' : G * (toM R)ᵀ = G * (toM Q)ᵀ := by rw [hG, Matrix.mul_assoc, e, Matrix.mul_assoc]
-    calc (toM R)ᵀ = (toM Gi * G) * (toM R)ᵀ := by rw [eG, Matrix.one_mul]
-      _ = toM Gi * (G * (toM Q)ᵀ) := by rw [Matrix.mul_assoc, e']
-      _ = (toM Q)ᵀ := by rw [← Matrix.mul_assoc, eG, Matrix.one_mul]
-  apply toM_inj
-  have := congrArg Matrix.transpose e2
-  simpa using this
-
-/-! ### uniform scale -/
-
-theorem applyH_scale {n d : ℕ} (s : ℚ) (P : Mat n d) (i : Fin n) (j : Fin d) :
-    applyH (scaleH s) P i j = s * P i j := by
-  simp [scaleH, applyH_mkH, smul, one, mul_comm]
-
-theorem centroid_smul {n d : ℕ} (s : ℚ) (P X : Mat n d) (hX : ∀ i j, X i j = s * P i j) (j : Fin d) :
-    centroid X j = s * centroid P j := by
-  simp only [centroid_eq, hX, ← Finset.mul_sum]; ring
-
-theorem norm2_smul {n d : ℕ} (s : ℚ) (P X : Mat n d) (hX : ∀ i j, X i j = s * P i j) :
-    norm2 X = s * s * norm2 P := by
-  simp only [norm2, frob2_sum, centred, centroid_smul s P X hX, hX, Finset.mul_sum]
-  exact Finset.sum_congr rfl fun i _ => Finset.sum_congr rfl fun j _ => by ring
-
-/-- **the scale alignment reproduces the target's overall size** (`norm` contract: `r² = norm2`) -/
-theorem scale_reproduces_size {n d : ℕ} (S T : Mat n d) (rT rS : ℚ) (hT : rT * rT = norm2 T)
-    (hS : rS * rS = norm2 S) (hS0 : rS ≠ 0) : norm2 (applyH (fitScale rT rS) S) = norm2 T := by
+/-- **the uniform-scale alignment is the only non-negative uniform scale that reproduces the target's size** -/
+theorem scale_unique {n d : ℕ} (S T : Mat n d) (rT rS σ : ℚ) (hT0 : 0 ≤ rT) (hT : rT * rT = norm2 T)
+    (hS0 : 0 < rS) (hS : rS * rS = norm2 S) (hσ : 0 ≤ σ) (hsz : norm2 (applyH (scaleH σ) S) = norm2 T) :
+    (scaleH σ : HMat d) = fitScale rT rS := by
+  rw [norm2_smul σ S (applyH (scaleH σ) S) (fun i j => applyH_scale _ S i j), ← hS, ← hT] at hsz
+  have h1 : σ * rS = rT := nonneg_sq_eq (mul_nonneg hσ hS0.le) hT0 (by linear_combination hsz)
   unfold fitScale
-  rw [norm2_smul (rT / rS) S (applyH (scaleH (rT / rS)) S) (fun i j => applyH_scale _ S i j), ← hS, ← hT]
-  field_simp
+  rw [← h1]; congr 1; field_simp
 
-/-- **exact recovery of a (positive) uniform scale** -/
-theorem scale_recovery {n d : ℕ} (S : Mat n d) (σ rT rS : ℚ) (hσ : 0 ≤ σ)
-    (hT0 : 0 ≤ rT) (hT : rT * rT = norm2 (applyH (scaleH σ) S)) (hS0 : 0 < rS) (hS : rS * rS = norm2 S) :
-    (fitScale rT rS : HMat d) = scaleH σ := by
-  rw [norm2_smul σ S (applyH (scaleH σ) S) (fun i j => applyH_scale _ S i j), ← hS] at hT
-  have : rT = σ * rS := by
-    have h1 : (rT - σ * rS) * (rT + σ * rS) = 0 := by linear_combination hT
-    rcases mul_eq_zero.1 h1 with h | h
-    · linarith
-    · have : 0 ≤ σ * rS := mul_nonneg hσ hS0.le
-      have h2 : rT = 0 := by linarith
-      have h3 : σ * rS = 0 := by linarith
-      rw [h2, h3]
-  unfold fitScale
-  rw [this]; congr 1; field_simp
-
-/-! ### similarity (`procrustes_alignment`) -/
-
-theorem applyH_entry {n d : ℕ} (H : HMat d) (P : Mat n d) (i : Fin n) (j : Fin d) :
-    applyH H P i j = (toM H * toM (hpoints P)) j.castSucc i := by
-  simp only [Matrix.mul_apply, toM_apply, hpoints, applyH, linPart, transPart, sumF_eq, Fin.sum_univ_castSucc]
-  simp [mul_comm]
-
-theorem applyH_mul {n d : ℕ} (A B : HMat d) (hB : IsAff B) (P : Mat n d) :
-    applyH (mul A B) P = applyH A (applyH B P) := by
-  funext i j
-  rw [applyH_entry, applyH_entry, hpoints_applyH hB, toM_mul, toM_mul, Matrix.mul_assoc]
-
-theorem isAff_mul {d : ℕ} {A B : HMat d} (hA : IsAff A) (hB : IsAff B) : IsAff (mul A B) := by
-  constructor
-  · intro j
-    simp only [mul, sumF_eq, Fin.sum_univ_castSucc, hA.1, hA.2, hB.1]; simp
-  · simp only [mul, sumF_eq, Fin.sum_univ_castSucc, hA.1, hA.2, hB.2]; simp
-
-theorem isAff_one {d : ℕ} : IsAff (one : HMat d) := by
-  constructor
-  · intro j; simp [one, Fin.ext_iff]; have := j.isLt; omega
-  · simp [one]
-
-theorem applyH_one {n d : ℕ} (P : Mat n d) : applyH (one : HMat d) P = P := by
-  funext i j
-  simp only [applyH, linPart, transPart, one, sumF_eq]
-  have : (j.castSucc = Fin.last d) = False := by
-    simp [Fin.ext_iff]; have := j.isLt; omega
-  simp [this]
-
-theorem isAff_translationH {d : ℕ} (t : Vec d) : IsAff (translationH t) := mkH_isAff _ _
-theorem isAff_scaleH {d : ℕ} (s : ℚ) : IsAff (scaleH s : HMat d) := mkH_isAff _ _
-theorem isAff_rotationH {d : ℕ} (R : Mat d d) : IsAff (rotationH R) := mkH_isAff _ _
-
-theorem applyH_simP0 {n d : ℕ} (s : ℚ) (S : Mat n d) (i : Fin n) (j : Fin d) :
-    applyH (simP0 s S) S i j = s * (S i j - centroid S j) := by
-  unfold simP0
-  rw [applyH_mul _ _ (isAff_mul (isAff_translationH _) isAff_one), applyH_mul _ _ isAff_one, applyH_one, applyH_scale,
-    applyH_translation]
-  simp only [negV]; ring
-
-theorem isAff_simP0 {n d : ℕ} (s : ℚ) (S : Mat n d) : IsAff (simP0 s S) :=
-  isAff_mul (isAff_scaleH _) (isAff_mul (isAff_translationH _) isAff_one)
-
-theorem simAlignedTgt_entry {n d : ℕ} (T : Mat n d) (i : Fin n) (j : Fin d) :
-    simAlignedTgt T i j = T i j - centroid T j := by
-  simp [simAlignedTgt, applyH_translation, negV]; ring
-
-/-- the aligned source of the similarity alignment, entrywise -/
-theorem applyH_simFit_rot {n d : ℕ} (rT rS : ℚ) (R : Mat d d) (S T : Mat n d) (i : Fin n) (j : Fin d) :
-    applyH (simFit true rT rS R S T) S i j = mul (simAlignedSrc (rT / rS) S) (tr R) i j + centroid T j := by
-  unfold simFit
-  simp only [if_true]
-  rw [applyH_mul _ _ (isAff_mul (isAff_rotationH _) (isAff_simP0 _ _)), applyH_mul _ _ (isAff_simP0 _ _),
-    applyH_translation, applyH_rotation]
-  rfl
-
-theorem applyH_simFit_norot {n d : ℕ} (rT rS : ℚ) (R : Mat d d) (S T : Mat n d) (i : Fin n) (j : Fin d) :
-    applyH (simFit false rT rS R S T) S i j = rT / rS * (S i j - centroid S j) + centroid T j := by
-  unfold simFit
-  simp only [Bool.false_eq_true, if_false]
-  rw [applyH_mul _ _ (isAff_simP0 _ _), applyH_translation, applyH_simP0]
-
-theorem centroid_centred {n d : ℕ} (hn : n ≠ 0) (P : Mat n d) (j : Fin d) : (∑ i, (P i j - centroid P j)) = 0 := by
-  have hn' : (n : ℚ) ≠ 0 := Nat.cast_ne_zero.2 hn
-  simp only [centroid_eq, Finset.sum_sub_distrib, Finset.sum_const, Finset.card_univ, Fintype.card_fin, nsmul_eq_mul]
-  field_simp; ring
-
-/-- a linear image of a centred point set, shifted by `c`, has centroid `c` -/
-theorem centroid_lin_shift {n d : ℕ} (hn : n ≠ 0) (X : Mat n d) (hX : ∀ j, ∑ i, X i j = 0) (L : Mat d d) (c : Vec d)
-    (j : Fin d) : centroid (fun i j => mul X L i j + c j) j = c j := by
-  have hn' : (n : ℚ) ≠ 0 := Nat.cast_ne_zero.2 hn
-  simp only [centroid_eq, mul, sumF_eq, Finset.sum_add_distrib, Finset.sum_const, Finset.card_univ, Fintype.card_fin,
-    nsmul_eq_mul]
-  rw [Finset.sum_comm]
-  simp only [← Finset.sum_mul, hX]
-  simp; field_simp
-
-theorem simAlignedSrc_sum {n d : ℕ} (hn : n ≠ 0) (s : ℚ) (S : Mat n d) (j : Fin d) :
-    ∑ i, simAlignedSrc s S i j = 0 := by
-  simp only [simAlignedSrc, applyH_simP0, ← Finset.mul_sum, centroid_centred hn, mul_zero]
-
-/-- **the similarity alignment reproduces the target's centroid** (with or without rotation, any `R`) -/
-theorem similarity_reproduces_centroid {n d : ℕ} (hn : n ≠ 0) (rotation : Bool) (rT rS : ℚ) (R : Mat d d)
-    (S T : Mat n d) : centroid (applyH (simFit rotation rT rS R S T) S) = centroid T := by
-  funext j
-  cases rotation
-  · have : applyH (simFit false rT rS R S T) S =
-        fun i j => mul (simAlignedSrc (rT / rS) S) one i j + centroid T j := by
-      funext i j
-      rw [applyH_simFit_norot]
-      simp [mul, one, sumF_eq, simAlignedSrc, applyH_simP0]
-    rw [this]
-    exact centroid_lin_shift hn _ (simAlignedSrc_sum hn _ S) _ _ j
-  · have : applyH (simFit true rT rS R S T) S =
-        fun i j => mul (simAlignedSrc (rT / rS) S) (tr R) i j + centroid T j := by
-      funext i j; exact applyH_simFit_rot ..
-    rw [this]
-    exact centroid_lin_shift hn _ (simAlignedSrc_sum hn _ S) _ _ j
-
-theorem centred_shift {n d : ℕ} (hn : n ≠ 0) (Y : Mat n d) (hY : ∀ j, ∑ i, Y i j = 0) (c : Vec d) :
-    centred (fun i j => Y i j + c j) = Y := by
-  have hn' : (n : ℚ) ≠ 0 := Nat.cast_ne_zero.2 hn
-  funext i j
-  simp only [centred, centroid_eq, Finset.sum_add_distrib, hY, Finset.sum_const, Finset.card_univ, Fintype.card_fin,
-    nsmul_eq_mul]
-  field_simp; ring
-
-theorem mul_sum_zero {n d : ℕ} (X : Mat n d) (hX : ∀ j, ∑ i, X i j = 0) (L : Mat d d) (j : Fin d) :
-    ∑ i, mul X L i j = 0 := by
-  simp only [mul, sumF_eq]
-  rw [Finset.sum_comm]
-  simp only [← Finset.sum_mul, hX]; simp
-
-theorem frob2_mul_orth {n d : ℕ} (X : Mat n d) {R : Mat d d} (hR : IsOrth R) : frob2 (mul X (tr R)) = frob2 X := by
-  rw [frob2_eq, frob2_eq, toM_mul, toM_tr, transpose_mul, transpose_transpose, Matrix.mul_assoc,
-    ← Matrix.mul_assoc (toM R)ᵀ, hR.toM_left, Matrix.one_mul]
-
-theorem frob2_simAlignedSrc {n d : ℕ} (s : ℚ) (S : Mat n d) : frob2 (simAlignedSrc s S) = s * s * norm2 S := by
-  simp only [frob2_sum, simAlignedSrc, applyH_simP0, norm2, centred, Finset.mul_sum]
-  exact Finset.sum_congr rfl fun i _ => Finset.sum_congr rfl fun j _ => by ring
-
-theorem simFit_rot_fun {n d : ℕ} (rT rS : ℚ) (R : Mat d d) (S T : Mat n d) :
-    applyH (simFit true rT rS R S T) S = fun i j => mul (simAlignedSrc (rT / rS) S) (tr R) i j + centroid T j := by
-  funext i j; exact applyH_simFit_rot ..
-
-theorem simFit_norot_fun {n d : ℕ} (rT rS : ℚ) (R : Mat d d) (S T : Mat n d) :
-    applyH (simFit false rT rS R S T) S = fun i j => simAlignedSrc (rT / rS) S i j + centroid T j := by
-  funext i j
-  rw [applyH_simFit_norot]; simp [simAlignedSrc, applyH_simP0]
-
-/-- **the similarity alignment reproduces the target's overall size** (`R` orthogonal when rotation is fitted) -/
-theorem similarity_reproduces_size {n d : ℕ} (hn : n ≠ 0) (rotation : Bool) (rT rS : ℚ) (R : Mat d d)
-    (hR : rotation = true → IsOrth R) (S T : Mat n d) (hT : rT * rT = norm2 T) (hS : rS * rS = norm2 S)
-    (hS0 : rS ≠ 0) : norm2 (applyH (simFit rotation rT rS R S T) S) = norm2 T := by
-  have hfin : rT / rS * (rT / rS) * norm2 S = norm2 T := by rw [← hS, ← hT]; field_simp
-  cases rotation
-  · rw [simFit_norot_fun, norm2, centred_shift hn _ (simAlignedSrc_sum hn _ S), frob2_simAlignedSrc, hfin]
-  · rw [simFit_rot_fun, norm2, centred_shift hn _ (mul_sum_zero _ (simAlignedSrc_sum hn _ S) _),
-      frob2_mul_orth _ (hR rfl), frob2_simAlignedSrc, hfin]
-
-/-- the similarity residual is the residual of the pure rotation problem on the centred, rescaled data -/
-theorem simFit_err_eq {n d : ℕ} (rT rS : ℚ) (Q : Mat d d) (S T : Mat n d) :
-    err2 (applyH (simFit true rT rS Q S T) S) T =
-      err2 (applyH (rotationH Q) (simAlignedSrc (rT / rS) S)) (simAlignedTgt T) := by
-  rw [simFit_rot_fun, applyH_rotation]
-  simp only [err2, frob2_sum, msub, simAlignedTgt_entry]
-  exact Finset.sum_congr rfl fun i _ => Finset.sum_congr rfl fun j _ => by ring
-
-/-- **the similarity alignment uses the least-squares rotation** — mirroring allowed, every dimension -/
-theorem similarity_uses_ls_rotation_mirror {n d : ℕ} (rT rS : ℚ) (S T : Mat n d) {U Vt : Mat d d} {D : Vec d}
-    (hsvd : SvdOK (corr (simAlignedSrc (rT / rS) S) (simAlignedTgt T)) U D Vt) (Q : Mat d d) (hQ : IsOrth Q) :
-    err2 (applyH (simFit true rT rS (rotFit true U Vt) S T) S) T ≤ err2 (applyH (simFit true rT rS Q S T) S) T := by
-  rw [simFit_err_eq, simFit_err_eq]; exact rotation_ls_optimal_mirror _ _ hsvd Q hQ
-
-theorem similarity_uses_ls_rotation_2d {n : ℕ} (rT rS : ℚ) (S T : Mat n 2) {U Vt : Mat 2 2} {D : Vec 2}
-    (hsvd : SvdOK (corr (simAlignedSrc (rT / rS) S) (simAlignedTgt T)) U D Vt) (Q : Mat 2 2) (hQ : IsOrth Q)
-    (hQd : det Q = 1) :
-    err2 (applyH (simFit true rT rS (rotFit false U Vt) S T) S) T ≤ err2 (applyH (simFit true rT rS Q S T) S) T := by
-  rw [simFit_err_eq, simFit_err_eq]; exact rotation_ls_optimal_2d _ _ hsvd Q hQ hQd
-
-theorem similarity_uses_ls_rotation_3d {n : ℕ} (rT rS : ℚ) (S T : Mat n 3) {U Vt : Mat 3 3} {D : Vec 3}
-    (hsvd : SvdOK (corr (simAlignedSrc (rT / rS) S) (simAlignedTgt T)) U D Vt) (Q : Mat 3 3) (hQ : IsOrth Q)
-    (hQd : det Q = 1) :
-    err2 (applyH (simFit true rT rS (rotFit false U Vt) S T) S) T ≤ err2 (applyH (simFit true rT rS Q S T) S) T := by
-  rw [simFit_err_eq, simFit_err_eq]; exact rotation_ls_optimal_3d _ _ hsvd Q hQ hQd
-
-/-! ### similarity: exact recovery -/
-
-/-- a member of the similarity family: scale by `σ`, rotate by `Q₀`, translate by `t` -/
-def simMember {d : ℕ} (σ : ℚ) (Q₀ : Mat d d) (t : Vec d) : HMat d :=
-  mul (translationH t) (mul (rotationH Q₀) (scaleH σ))
-
-theorem applyH_simMember {n d : ℕ} (σ : ℚ) (Q₀ : Mat d d) (t : Vec d) (S : Mat n d) (i : Fin n) (j : Fin d) :
-    applyH (simMember σ Q₀ t) S i j = (∑ l, σ * S i l * Q₀ j l) + t j := by
-  unfold simMember
-  rw [applyH_mul _ _ (isAff_mul (isAff_rotationH _) (isAff_scaleH _)), applyH_mul _ _ (isAff_scaleH _),
-    applyH_translation, applyH_rotation]
-  simp [mul, tr, sumF_eq, applyH_scale]
-
-theorem centroid_simMember {n d : ℕ} (hn : n ≠ 0) (σ : ℚ) (Q₀ : Mat d d) (t : Vec d) (S : Mat n d) (j : Fin d) :
-    centroid (applyH (simMember σ Q₀ t) S) j = (∑ l, σ * centroid S l * Q₀ j l) + t j := by
-  have hn' : (n : ℚ) ≠ 0 := Nat.cast_ne_zero.2 hn
-  simp only [centroid_eq, applyH_simMember, Finset.sum_add_distrib, Finset.sum_const, Finset.card_univ,
-    Fintype.card_fin, nsmul_eq_mul, div_eq_mul_inv]
-  rw [Finset.sum_comm]
-  have : ∀ l, σ * ((∑ i, S i l) * (n : ℚ)⁻¹) * Q₀ j l = (∑ i, σ * S i l * Q₀ j l) * (n : ℚ)⁻¹ := by
-    intro l
-    have : (∑ i, σ * S i l * Q₀ j l) = σ * (∑ i, S i l) * Q₀ j l := by
-      simp only [← Finset.mul_sum, ← Finset.sum_mul]
-    rw [this]; ring
-  simp only [this, ← Finset.sum_mul]
-  field_simp
-
-theorem simAlignedTgt_simMember {n d : ℕ} (hn : n ≠ 0) (σ : ℚ) (Q₀ : Mat d d) (t : Vec d) (S : Mat n d) :
-    simAlignedTgt (applyH (simMember σ Q₀ t) S) = applyH (rotationH Q₀) (simAlignedSrc σ S) := by
-  funext i j
-  rw [simAlignedTgt_entry, centroid_simMember hn, applyH_simMember, applyH_rotation]
-  simp only [mul, tr, sumF_eq, simAlignedSrc, applyH_simP0]
-  rw [add_sub_add_right_eq_sub, ← Finset.sum_sub_distrib]
-  exact Finset.sum_congr rfl fun l _ => by ring
-
-theorem norm2_simMember {n d : ℕ} (hn : n ≠ 0) (σ : ℚ) {Q₀ : Mat d d} (hQ : IsOrth Q₀) (t : Vec d) (S : Mat n d) :
-    norm2 (applyH (simMember σ Q₀ t) S) = σ * σ * norm2 S := by
-  have e : centred (applyH (simMember σ Q₀ t) S) = simAlignedTgt (applyH (simMember σ Q₀ t) S) := by
-    funext i j; rw [simAlignedTgt_entry]; rfl
-  rw [norm2, e, simAlignedTgt_simMember hn, applyH_rotation, frob2_mul_orth _ hQ, frob2_simAlignedSrc]
-
-/-- the norm-ratio scale recovers `σ` -/
-theorem sim_scale_recovered {n d : ℕ} (hn : n ≠ 0) (σ : ℚ) (hσ : 0 ≤ σ) {Q₀ : Mat d d} (hQ : IsOrth Q₀) (t : Vec d)
-    (S : Mat n d) (rT rS : ℚ) (hT0 : 0 ≤ rT) (hT : rT * rT = norm2 (applyH (simMember σ Q₀ t) S)) (hS0 : 0 < rS)
-    (hS : rS * rS = norm2 S) : rT / rS = σ := by
-  rw [norm2_simMember hn σ hQ, ← hS] at hT
-  have : rT = σ * rS := by
-    have h1 : (rT - σ * rS) * (rT + σ * rS) = 0 := by linear_combination hT
-    rcases mul_eq_zero.1 h1 with h | h
-    · linarith
-    · have : 0 ≤ σ * rS := mul_nonneg hσ hS0.le
-      have h2 : rT = 0 := by linarith
-      have h3 : σ * rS = 0 := by linarith
-      rw [h2, h3]
-  rw [this]; field_simp
-
-/-- core of the recovery argument: once the fitted rotation acts on the centred, rescaled source like `Q₀`,
-the similarity alignment sends the source exactly onto the target -/
-theorem sim_recovery_core {n d : ℕ} (hn : n ≠ 0) (σ : ℚ) (Q₀ : Mat d d) (t : Vec d) (S : Mat n d) (rT rS : ℚ)
-    (hs : rT / rS = σ) (R : Mat d d)
-    (hR : applyH (rotationH R) (simAlignedSrc σ S) = applyH (rotationH Q₀) (simAlignedSrc σ S)) :
-    applyH (simFit true rT rS R S (applyH (simMember σ Q₀ t) S)) S = applyH (simMember σ Q₀ t) S := by
-  funext i j
-  rw [applyH_simFit_rot, hs, ← applyH_rotation, hR, ← simAlignedTgt_simMember hn σ Q₀ t, simAlignedTgt_entry]
-  ring
-
-/-- **exact recovery of a similarity (mirroring allowed)**: target = member(source) ⇒ aligned source = target -/
-theorem similarity_recovers_target_mirror {n d : ℕ} (hn : n ≠ 0) (σ : ℚ) (hσ : 0 ≤ σ) {Q₀ : Mat d d} (hQ : IsOrth Q₀)
-    (t : Vec d) (S : Mat n d) (rT rS : ℚ) (hT0 : 0 ≤ rT) (hT : rT * rT = norm2 (applyH (simMember σ Q₀ t) S))
-    (hS0 : 0 < rS) (hS : rS * rS = norm2 S) {U Vt : Mat d d} {D : Vec d}
-    (hsvd : SvdOK (corr (simAlignedSrc (rT / rS) S) (simAlignedTgt (applyH (simMember σ Q₀ t) S))) U D Vt) :
-    applyH (simFit true rT rS (rotFit true U Vt) S (applyH (simMember σ Q₀ t) S)) S = applyH (simMember σ Q₀ t) S := by
-  have hs := sim_scale_recovered hn σ hσ hQ t S rT rS hT0 hT hS0 hS
-  rw [hs, simAlignedTgt_simMember hn] at hsvd
-  exact sim_recovery_core hn σ Q₀ t S rT rS hs _ (rotation_recovers_target_mirror _ Q₀ hQ hsvd)
-
-theorem similarity_recovers_target_2d {n : ℕ} (hn : n ≠ 0) (σ : ℚ) (hσ : 0 ≤ σ) {Q₀ : Mat 2 2} (hQ : IsOrth Q₀)
-    (hQd : det Q₀ = 1)
-    (t : Vec 2) (S : Mat n 2) (rT rS : ℚ) (hT0 : 0 ≤ rT) (hT : rT * rT = norm2 (applyH (simMember σ Q₀ t) S))
-    (hS0 : 0 < rS) (hS : rS * rS = norm2 S) {U Vt : Mat 2 2} {D : Vec 2}
-    (hsvd : SvdOK (corr (simAlignedSrc (rT / rS) S) (simAlignedTgt (applyH (simMember σ Q₀ t) S))) U D Vt) :
-    applyH (simFit true rT rS (rotFit false U Vt) S (applyH (simMember σ Q₀ t) S)) S = applyH (simMember σ Q₀ t) S := by
-  have hs := sim_scale_recovered hn σ hσ hQ t S rT rS hT0 hT hS0 hS
-  rw [hs, simAlignedTgt_simMember hn] at hsvd
-  exact sim_recovery_core hn σ Q₀ t S rT rS hs _ (rotation_recovers_target_2d _ Q₀ hQ hQd hsvd)
-
-theorem similarity_recovers_target_3d {n : ℕ} (hn : n ≠ 0) (σ : ℚ) (hσ : 0 ≤ σ) {Q₀ : Mat 3 3} (hQ : IsOrth Q₀)
-    (hQd : det Q₀ = 1)
-    (t : Vec 3) (S : Mat n 3) (rT rS : ℚ) (hT0 : 0 ≤ rT) (hT : rT * rT = norm2 (applyH (simMember σ Q₀ t) S))
-    (hS0 : 0 < rS) (hS : rS * rS = norm2 S) {U Vt : Mat 3 3} {D : Vec 3}
-    (hsvd : SvdOK (corr (simAlignedSrc (rT / rS) S) (simAlignedTgt (applyH (simMember σ Q₀ t) S))) U D Vt) :
-    applyH (simFit true rT rS (rotFit false U Vt) S (applyH (simMember σ Q₀ t) S)) S = applyH (simMember σ Q₀ t) S := by
-  have hs := sim_scale_recovered hn σ hσ hQ t S rT rS hT0 hT hS0 hS
-  rw [hs, simAlignedTgt_simMember hn] at hsvd
-  exact sim_recovery_core hn σ Q₀ t S rT rS hs _ (rotation_recovers_target_3d _ Q₀ hQ hQd hsvd)
-
-/-- recovery without the rotation stage: target = translate ∘ scale (source) -/
-theorem similarity_recovers_target_norot {n d : ℕ} (hn : n ≠ 0) (σ : ℚ) (hσ : 0 ≤ σ) (t : Vec d) (S : Mat n d)
-    (rT rS : ℚ) (hT0 : 0 ≤ rT) (hT : rT * rT = norm2 (applyH (simMember σ one t) S)) (hS0 : 0 < rS)
-    (hS : rS * rS = norm2 S) (R : Mat d d) :
-    applyH (simFit false rT rS R S (applyH (simMember σ one t) S)) S = applyH (simMember σ one t) S := by
+/-- **the similarity alignment without rotation is the only map `x ↦ σ·x + t` (σ ≥ 0) that reproduces the target's
+centroid and size**: any such map acts on the source exactly as the fitted one -/
+theorem similarity_norot_unique {n d : ℕ} (hn : n ≠ 0) (S T : Mat n d) (rT rS σ : ℚ) (t : Vec d) (R : Mat d d)
+    (hT0 : 0 ≤ rT) (hT : rT * rT = norm2 T) (hS0 : 0 < rS) (hS : rS * rS = norm2 S) (hσ : 0 ≤ σ)
+    (hc : centroid (applyH (simMember σ one t) S) = centroid T)
+    (hsz : norm2 (applyH (simMember σ one t) S) = norm2 T) :
+    applyH (simMember σ one t) S = applyH (simFit false rT rS R S T) S := by
   have hI : IsOrth (one : Mat d d) := by
     constructor <;> (apply toM_inj; simp [toM_mul, toM_tr, toM_one])
-  have hs := sim_scale_recovered hn σ hσ hI t S rT rS hT0 hT hS0 hS
+  rw [norm2_simMember hn σ hI, ← hS, ← hT] at hsz
+  have h1 : σ * rS = rT := nonneg_sq_eq (mul_nonneg hσ hS0.le) hT0 (by linear_combination hsz)
+  have hs : rT / rS = σ := by rw [← h1]; field_simp
   funext i j
-  rw [applyH_simFit_norot, hs, centroid_simMember hn, applyH_simMember]
+  have hcj := congrFun hc j
+  rw [centroid_simMember hn] at hcj
+  rw [applyH_simFit_norot, hs, applyH_simMember, ← hcj]
   simp only [one, mul_ite, mul_one, mul_zero, Finset.sum_ite_eq, Finset.mem_univ, if_true]
   ring
 
-/-! ### aligned source and alignment error -/
+/-! ### thin-plate splines recover affine maps exactly -/
 
-/-- **the reported aligned source is the transform applied to the source** (every construction variant) -/
-theorem aligned_source_def {n d : ℕ} (resync : Bool) (S T : Mat n d) (h : HMat d) :
-    (construct resync S T h).alignedSource = applyH h S := rfl
+/-- the purely affine coefficient block solves the TPS system whose target is the affine image of the source -/
+theorem tpsL_mul_affineCoef {n : ℕ} (K : Mat n n) (S : Mat n 2) (H0 : HMat 2) :
+    mul (tpsL K S) (tpsAffineCoef H0) = tpsY (applyH H0 S) := by
+  funext r c
+  simp only [mul, sumF_eq, Fin.sum_univ_add, Fin.sum_univ_three]
+  refine Fin.addCases (fun i => ?_) (fun j => ?_) r
+  · simp [tpsL, tpsY, tpsAffineCoef, pcol, applyH, linPart, transPart, sumF_eq, Fin.sum_univ_two]
+    ring
+  · simp [tpsL, tpsY, tpsAffineCoef]
 
-theorem err2_symm {n d : ℕ} (X T : Mat n d) : err2 X T = err2 T X := by
-  simp only [err2, frob2_sum, msub]
-  exact Finset.sum_congr rfl fun i _ => Finset.sum_congr rfl fun j _ => by ring
+/-- a square system with a right inverse has at most one solution -/
+theorem solve_unique {k p : ℕ} (G Gi : Mat k k) (hGi : mul G Gi = one) (X X' : Mat k p)
+    (h : mul G X = mul G X') : X = X' := by
+  have e := congrArg toM h
+  have eG := congrArg toM hGi
+  simp only [toM_mul, toM_one] at e eG
+  have eG' : toM Gi * toM G = 1 := mul_eq_one_comm.1 eG
+  apply toM_inj
+  calc toM X = (toM Gi * toM G) * toM X := by rw [eG', Matrix.one_mul]
+    _ = toM Gi * (toM G * toM X') := by rw [Matrix.mul_assoc, e]
+    _ = toM X' := by rw [← Matrix.mul_assoc, eG', Matrix.one_mul]
 
-/-- **the alignment error is the distance between the requested target and the aligned source** — for a
-constructor that keeps the requested target (`resync = false`: translation, scale, similarity on every tree;
-affine and rotation after the repair) -/
-theorem alignment_error_def {n d : ℕ} (S T : Mat n d) (h : HMat d) :
-    (construct false S T h).alignmentError2 = err2 T (applyH h S) := rfl
+/-- **exact recovery of affine maps**: when the target is an affine image of the source and the TPS system is
+invertible (`Li` is a right inverse, e.g. the checked solve of `L·X = 1`), the fitted coefficients are exactly the
+affine ones -/
+theorem tps_affine_recovery {n : ℕ} (K : Mat n n) (S : Mat n 2) (H0 : HMat 2) (coef : Mat (n + 3) 2)
+    (h : tpsFit K S (applyH H0 S) = some coef) (Li : Mat (n + 3) (n + 3)) (hLi : mul (tpsL K S) Li = one) :
+    coef = tpsAffineCoef H0 := by
+  have h1 := solveChecked_spec h
+  exact solve_unique _ Li hLi _ _ (by rw [h1, tpsL_mul_affineCoef])
 
-/-- the coded behaviour of `AlignmentAffine.__init__` / `AlignmentRotation.__init__` on the original tree
-(`resync = true`): the reported error is identically zero, whatever the target -/
-theorem alignment_error_resync_zero {n d : ℕ} (S T : Mat n d) (h : HMat d) :
-    (construct true S T h).alignmentError2 = 0 := by
-  simp [construct, AlignObj.alignmentError2, AlignObj.alignedSource, err2_self]
+/-- … so the non-affine (bending) part of the spline is zero … -/
+theorem tps_affine_no_bending {n : ℕ} (K : Mat n n) (S : Mat n 2) (H0 : HMat 2) (coef : Mat (n + 3) 2)
+    (h : tpsFit K S (applyH H0 S) = some coef) (Li : Mat (n + 3) (n + 3)) (hLi : mul (tpsL K S) Li = one)
+    (i : Fin n) (c : Fin 2) : coef (Fin.castAdd 3 i) c = 0 := by
+  rw [tps_affine_recovery K S H0 coef h Li hLi]
+  simp [tpsAffineCoef]
 
-/-- witness: unit square corners, target = source plus a twist that no affine map can produce -/
-def witS : Mat 4 2 := fun i j =>
-  if j = 0 then (if i.val = 0 ∨ i.val = 1 then -1 else 1) else (if i.val = 0 ∨ i.val = 2 then -1 else 1)
-def witT : Mat 4 2 := fun i j => witS i j + (if j = 0 then witS i 0 * witS i 1 else 0)
+/-- … and the spline *is* the affine map, at every point and whatever the kernel values there -/
+theorem tps_affine_exact {n : ℕ} (K : Mat n n) (S : Mat n 2) (H0 : HMat 2) (coef : Mat (n + 3) 2)
+    (h : tpsFit K S (applyH H0 S) = some coef) (Li : Mat (n + 3) (n + 3)) (hLi : mul (tpsL K S) Li = one)
+    (kern : Vec n) (x y : ℚ) (c : Fin 2) :
+    tpsApply coef kern x y c = H0 c.castSucc 0 * x + H0 c.castSucc 1 * y + H0 c.castSucc 2 := by
+  rw [tps_affine_recovery K S H0 coef h Li hLi]
+  simp [tpsApply, tpsAffineCoef, sumF_eq]
+  ring
 
-/-- **refutation of the error clause for the coded (`resync`) constructor**: on the witness the identity matrix
-satisfies the normal equations (so it is the affine fit), the true residual is `4`, the reported error is `0` -/
-theorem alignment_error_resync_refuted :
-    mul (mul (hpoints witS) (tr (hpoints witS))) (tr (one : HMat 2)) = mul (hpoints witS) (tr (hpoints witT)) ∧
-    err2 witT (applyH (one : HMat 2) witS) = 4 ∧
-    (construct true witS witT (one : HMat 2)).alignmentError2 ≠ err2 witT (applyH (one : HMat 2) witS) := by
-  have h2 : err2 witT (applyH (one : HMat 2) witS) = 4 := by
-    rw [applyH_one]
-    simp [err2, frob2_sum, msub, witT, witS, Fin.sum_univ_succ]
-    norm_num
-  refine ⟨?_, h2, ?_⟩
-  · funext i j
-    fin_cases i <;> fin_cases j <;>
-      simp [mul, tr, one, hpoints, witS, witT, sumF_eq, Fin.sum_univ_succ] <;> norm_num
-  · rw [alignment_error_resync_zero, h2]; norm_num
+/-! ### thin-plate splines as coded: the truncated-SVD branch -/
 
-/-! ### thin-plate splines -/
+theorem toM_diagV {m : ℕ} (v : Vec m) : toM (diagV v) = diagonal v := by
+  ext i j; simp [diagV, diagonal_apply]
 
-/-- **TPS sends every source landmark exactly onto its target landmark**: with coefficients solving
-`L·c = Y` (checked by `tpsFit`), evaluating the spline at source point `i` — whose kernel row is row `i` of `K` —
-gives target point `i`.  No property of the kernel values is needed. -/
-theorem tps_interpolates {n : ℕ} (K : Mat n n) (S T : Mat n 2) (coef : Mat (n + 3) 2)
-    (h : tpsFit K S T = some coef) (i : Fin n) : tpsApply coef (K i) (S i 0) (S i 1) = T i := by
-  have hL := solveChecked_spec h
+/-- the spline interpolates as soon as its coefficients solve the TPS system -/
+theorem tps_interp_of_solves {n : ℕ} (K : Mat n n) (S T : Mat n 2) (coef : Mat (n + 3) 2)
+    (hL : mul (tpsL K S) coef = tpsY T) (i : Fin n) : tpsApply coef (K i) (S i 0) (S i 1) = T i := by
   funext c
   have := congrFun (congrFun hL (Fin.castAdd 3 i)) c
   simp only [mul, sumF_eq, Fin.sum_univ_add, Fin.sum_univ_three, tpsL, tpsY] at this
@@ -1036,211 +183,744 @@ theorem tps_interpolates {n : ℕ} (K : Mat n n) (S T : Mat n 2) (coef : Mat (n 
   simp [pcol] at this
   linarith
 
-/-! ### piecewise affine -/
+/-- mask of the kept directions -/
+def keepMask {m : ℕ} (keep : ℕ) : Vec m := fun i => if i.val < keep then 1 else 0
 
-namespace V2
-@[ext] theorem ext' {a b : V2} (hx : a.x = b.x) (hy : a.y = b.y) : a = b := by
-  cases a; cases b; simp_all
-end V2
+/-- **what the coded "inverse" does**: with the SVD contract for a *symmetric* system `L` (the kernel matrix of a
+radial basis function is symmetric) and non-zero kept singular values, `L · coefficients` is the data projected onto
+the kept right singular directions -/
+theorem tps_svd_product {n : ℕ} (K : Mat n n) (S T : Mat n 2) (U Vt : Mat (n + 3) (n + 3)) (s : Vec (n + 3))
+    (minSing : ℚ) (hsvd : SvdOK (tpsL K S) U s Vt) (hsym : tr (tpsL K S) = tpsL K S)
+    (hkept : ∀ i : Fin (n + 3), i.val < tpsKeep s minSing → s i ≠ 0) :
+    mul (tpsL K S) (tpsFitSvd U s Vt minSing T) =
+      mul (tr Vt) (mul (diagV (keepMask (tpsKeep s minSing))) (mul Vt (tpsY T))) := by
+  apply toM_inj
+  have hL := hsvd.toM_fact
+  rw [transpose_transpose] at hL
+  have hLt : toM (tpsL K S) = (toM Vt)ᵀ * diagonal s * (toM U)ᵀ := by
+    have h1 := congrArg toM hsym
+    rw [toM_tr] at h1
+    rw [← h1, hL]
+    simp only [transpose_mul, diagonal_transpose, Matrix.mul_assoc]
+  have hd : diagonal s * diagonal (tpsInvS s (tpsKeep s minSing)) =
+      (diagonal (keepMask (tpsKeep s minSing)) : Matrix (Fin (n + 3)) (Fin (n + 3)) ℚ) := by
+    rw [diagonal_mul_diagonal]
+    congr 1
+    funext i
+    unfold tpsInvS keepMask
+    split_ifs with h
+    · have := hkept i h
+      field_simp
+    · simp
+  have hrow : toM (fun l j => tpsInvS s (tpsKeep s minSing) l * mul Vt (tpsY T) l j) =
+      diagonal (tpsInvS s (tpsKeep s minSing)) * (toM Vt * toM (tpsY T)) := by
+    ext l j
+    simp [Matrix.diagonal_mul, ← toM_mul]
+  simp only [tpsFitSvd, toM_mul, toM_tr, toM_diagV, hrow]
+  conv_lhs => rw [hLt]
+  calc (toM Vt)ᵀ * diagonal s * (toM U)ᵀ * (toM U * (diagonal (tpsInvS s (tpsKeep s minSing)) * (toM Vt * toM (tpsY T))))
+      = (toM Vt)ᵀ * (diagonal s * (((toM U)ᵀ * toM U) * (diagonal (tpsInvS s (tpsKeep s minSing)) * (toM Vt * toM (tpsY T))))) := by
+        simp only [Matrix.mul_assoc]
+    _ = (toM Vt)ᵀ * ((diagonal s * diagonal (tpsInvS s (tpsKeep s minSing))) * (toM Vt * toM (tpsY T))) := by
+        rw [hsvd.orthU.toM_left, Matrix.one_mul, Matrix.mul_assoc]
+    _ = (toM Vt)ᵀ * (diagonal (keepMask (tpsKeep s minSing)) * (toM Vt * toM (tpsY T))) := by rw [hd]
 
-/-- a (source) triangle is non-degenerate -/
-def NonDeg (ij ik : V2) : Prop := V2.dot ij ij * V2.dot ik ik - V2.dot ij ik * V2.dot ij ik ≠ 0
+theorem tpsKeep_full {m : ℕ} (s : Vec m) (minSing : ℚ) (h : ∀ i, minSing ≤ s i) : tpsKeep s minSing = m := by
+  unfold tpsKeep
+  have : ((List.finRange m).filter fun i => decide (s i < minSing)) = [] := by
+    rw [List.filter_eq_nil_iff]
+    intro i _
+    simp only [decide_eq_true_eq, not_lt]
+    exact h i
+  rw [this]; simp
 
-/-- **`alpha_beta` returns the barycentric coordinates**: for a non-degenerate triangle and
-`p = i + a·ij + b·ik` the formulas return `(a, b)` -/
-theorem alpha_beta_correct (i ij ik : V2) (a b : ℚ) (h : NonDeg ij ik) :
-    alphaBeta i ij ik (V2.add i (V2.add (V2.smul a ij) (V2.smul b ik))) = (a, b) := by
-  unfold NonDeg at h
-  simp only [alphaBeta, V2.sub, V2.add, V2.smul, V2.dot] at *
-  refine Prod.ext ?_ ?_ <;> simp only <;> rw [mul_one_div, div_eq_iff h] <;> ring
+/-- **thin-plate splines as coded interpolate when no singular value is dropped**: SVD contract, symmetric system,
+every singular value at least `min_singular_val > 0` ⇒ every source landmark is sent exactly onto its target landmark -/
+theorem tps_svd_interpolates {n : ℕ} (K : Mat n n) (S T : Mat n 2) (U Vt : Mat (n + 3) (n + 3)) (s : Vec (n + 3))
+    (minSing : ℚ) (hmin : 0 < minSing) (hsvd : SvdOK (tpsL K S) U s Vt) (hsym : tr (tpsL K S) = tpsL K S)
+    (hall : ∀ i, minSing ≤ s i) (i : Fin n) :
+    tpsApply (tpsFitSvd U s Vt minSing T) (K i) (S i 0) (S i 1) = T i := by
+  apply tps_interp_of_solves
+  rw [tps_svd_product K S T U Vt s minSing hsvd hsym (fun i _ => by have := hall i; intro h0; rw [h0] at this; linarith)]
+  have hk := tpsKeep_full s minSing hall
+  have hmask : diagV (keepMask (tpsKeep s minSing) : Vec (n + 3)) = one := by
+    funext a b
+    have := a.isLt
+    simp only [diagV, keepMask, one, hk, this, if_true]
+  rw [hmask]
+  apply toM_inj
+  simp only [toM_mul, toM_tr, toM_one, Matrix.one_mul]
+  rw [← Matrix.mul_assoc, hsvd.orthV.toM_left, Matrix.one_mul]
 
-/-- in 2-D every point *is* `i + α·ij + β·ik` for the returned `(α, β)` -/
-theorem alpha_beta_reconstruct (i ij ik p : V2) (h : NonDeg ij ik) :
-    V2.add i (V2.add (V2.smul (alphaBeta i ij ik p).1 ij) (V2.smul (alphaBeta i ij ik p).2 ik)) = p := by
-  unfold NonDeg at h
-  simp only [alphaBeta, V2.sub, V2.add, V2.smul, V2.dot] at *
-  generalize hD : (ij.x * ij.x + ij.y * ij.y) * (ik.x * ik.x + ik.y * ik.y) -
-      (ij.x * ik.x + ij.y * ik.y) * (ij.x * ik.x + ij.y * ik.y) = D at h ⊢
-  ext <;> simp only [mul_one_div] <;> field_simp <;> rw [← hD] <;> ring
+/-- **…and otherwise the miss is exactly the dropped component of the data**: `L·coefficients − y` is minus the
+projection of `y` onto the dropped right singular directions -/
+theorem tps_svd_miss {n : ℕ} (K : Mat n n) (S T : Mat n 2) (U Vt : Mat (n + 3) (n + 3)) (s : Vec (n + 3))
+    (minSing : ℚ) (hsvd : SvdOK (tpsL K S) U s Vt) (hsym : tr (tpsL K S) = tpsL K S)
+    (hkept : ∀ i : Fin (n + 3), i.val < tpsKeep s minSing → s i ≠ 0) :
+    msub (tpsY T) (mul (tpsL K S) (tpsFitSvd U s Vt minSing T)) =
+      mul (tr Vt) (mul (diagV (fun i => 1 - keepMask (tpsKeep s minSing) i)) (mul Vt (tpsY T))) := by
+  rw [tps_svd_product K S T U Vt s minSing hsvd hsym hkept]
+  apply toM_inj
+  simp only [toM_sub, toM_mul, toM_tr, toM_diagV]
+  have hsplit : (diagonal (fun i => 1 - keepMask (tpsKeep s minSing) i) : Matrix (Fin (n + 3)) (Fin (n + 3)) ℚ) =
+      1 - diagonal (keepMask (tpsKeep s minSing)) := by
+    ext a b
+    by_cases hab : a = b
+    · subst hab; simp
+    · simp [hab]
+  rw [hsplit, Matrix.sub_mul, Matrix.one_mul, Matrix.mul_sub, ← Matrix.mul_assoc (toM Vt)ᵀ (toM Vt),
+    hsvd.orthV.toM_left, Matrix.one_mul]
 
-def TriNonDeg (src : ℕ → V2) (t : Tri) : Prop :=
-  NonDeg (V2.sub (src t.2.1) (src t.1)) (V2.sub (src t.2.2) (src t.1))
+/-- a symmetric kernel matrix makes the TPS system symmetric -/
+theorem tpsL_symm {n : ℕ} (K : Mat n n) (S : Mat n 2) (hK : ∀ i j, K i j = K j i) : tr (tpsL K S) = tpsL K S := by
+  funext r c
+  simp only [tr, tpsL]
+  by_cases hr : r.val < n <;> by_cases hc : c.val < n <;> simp [hr, hc, hK]
 
-def IsVertex (t : Tri) (u : ℕ) : Prop := u = t.1 ∨ u = t.2.1 ∨ u = t.2.2
+/-! ### piecewise affine: single-valuedness from the executable conformity certificate -/
 
-/-- convex/affine combination of two points -/
-def lerp (c : ℚ) (p q : V2) : V2 := V2.add (V2.smul (1 - c) p) (V2.smul c q)
+/-- affine combination of three points -/
+def combo3 (w0 w1 w2 : ℚ) (a b c : V2) : V2 := V2.add (V2.smul w0 a) (V2.add (V2.smul w1 b) (V2.smul w2 c))
 
-/-- **the piecewise-affine map is affine inside each source triangle**: the map of one triangle commutes with
-affine combinations (no hypothesis on the triangle) -/
-theorem triMap_affine (src tgt : ℕ → V2) (t : Tri) (c : ℚ) (p q : V2) :
-    triMap src tgt t (lerp c p q) = lerp c (triMap src tgt t p) (triMap src tgt t q) := by
-  simp only [triMap, triAB, alphaBeta, lerp, V2.sub, V2.add, V2.smul, V2.dot]
+/-- the map of a triangle preserves affine combinations -/
+theorem triMap_combo3 (src tgt : ℕ → V2) (s : Tri) (w0 w1 w2 : ℚ) (hw : w0 + w1 + w2 = 1) (a b c : V2) :
+    triMap src tgt s (combo3 w0 w1 w2 a b c) =
+      combo3 w0 w1 w2 (triMap src tgt s a) (triMap src tgt s b) (triMap src tgt s c) := by
+  have : w0 = 1 - w1 - w2 := by linarith
+  subst this
+  simp only [triMap, triAB, alphaBeta, combo3, V2.sub, V2.add, V2.smul, V2.dot]
   ext <;> simp only <;> ring
 
-theorem triAB_vertex (src : ℕ → V2) (t : Tri) (h : TriNonDeg src t) :
-    triAB src t (src t.1) = (0, 0) ∧ triAB src t (src t.2.1) = (1, 0) ∧ triAB src t (src t.2.2) = (0, 1) := by
-  unfold triAB
-  refine ⟨?_, ?_, ?_⟩
-  · have := alpha_beta_correct (src t.1) (V2.sub (src t.2.1) (src t.1)) (V2.sub (src t.2.2) (src t.1)) 0 0 h
-    convert this using 2
-    ext <;> simp [V2.add, V2.smul, V2.sub]
-  · have := alpha_beta_correct (src t.1) (V2.sub (src t.2.1) (src t.1)) (V2.sub (src t.2.2) (src t.1)) 1 0 h
-    convert this using 2
-    ext <;> simp [V2.add, V2.smul, V2.sub]
-  · have := alpha_beta_correct (src t.1) (V2.sub (src t.2.1) (src t.1)) (V2.sub (src t.2.2) (src t.1)) 0 1 h
-    convert this using 2
-    ext <;> simp [V2.add, V2.smul, V2.sub]
+theorem orient_combo3 (A B : V2) (w0 w1 w2 : ℚ) (hw : w0 + w1 + w2 = 1) (a b c : V2) :
+    orient A B (combo3 w0 w1 w2 a b c) = w0 * orient A B a + w1 * orient A B b + w2 * orient A B c := by
+  have : w0 = 1 - w1 - w2 := by linarith
+  subst this
+  simp only [orient, combo3, V2.add, V2.smul]
+  ring
 
-/-- the map of a non-degenerate triangle sends each of its source vertices to the target vertex -/
-theorem triMap_vertex (src tgt : ℕ → V2) (t : Tri) (h : TriNonDeg src t) (u : ℕ) (hu : IsVertex t u) :
-    triMap src tgt t (src u) = tgt u := by
-  obtain ⟨h1, h2, h3⟩ := triAB_vertex src t h
-  rcases hu with rfl | rfl | rfl
-  · simp only [triMap, h1]; ext <;> simp [V2.add, V2.smul, V2.sub]
-  · simp only [triMap, h2]; ext <;> simp [V2.add, V2.smul, V2.sub]
-  · simp only [triMap, h3]; ext <;> simp [V2.add, V2.smul, V2.sub]
+/-- a point a triangle contains is the convex combination of its vertices with the weights `alpha_beta` returns -/
+theorem contains_combo (src : ℕ → V2) (t : Tri) (h : TriNonDeg src t) (p : V2)
+    (hc : containsAB (triAB src t p) = true) :
+    ∃ w0 w1 w2 : ℚ, 0 ≤ w0 ∧ 0 ≤ w1 ∧ 0 ≤ w2 ∧ w0 + w1 + w2 = 1 ∧
+      p = combo3 w0 w1 w2 (src t.1) (src t.2.1) (src t.2.2) := by
+  have hp := alpha_beta_reconstruct (src t.1) (V2.sub (src t.2.1) (src t.1)) (V2.sub (src t.2.2) (src t.1)) p h
+  simp only [containsAB, Bool.and_eq_true, decide_eq_true_eq] at hc
+  obtain ⟨⟨ha, hb⟩, hab⟩ := hc
+  unfold triAB at ha hb hab
+  generalize alphaBeta (src t.1) (V2.sub (src t.2.1) (src t.1)) (V2.sub (src t.2.2) (src t.1)) p = ab at hp ha hb hab
+  refine ⟨1 - ab.1 - ab.2, ab.1, ab.2, by linarith, ha, hb, by ring, ?_⟩
+  rw [← hp]
+  simp only [combo3, V2.add, V2.sub, V2.smul]
+  ext <;> simp only <;> ring
 
-theorem contains_vertex (src : ℕ → V2) (t : Tri) (h : TriNonDeg src t) (u : ℕ) (hu : IsVertex t u) :
-    containsAB (triAB src t (src u)) = true := by
-  obtain ⟨h1, h2, h3⟩ := triAB_vertex src t h
-  rcases hu with rfl | rfl | rfl
-  · rw [h1]; simp [containsAB]
-  · rw [h2]; simp [containsAB]
-  · rw [h3]; simp [containsAB]
+theorem isVertexB_iff (t : Tri) (u : ℕ) : isVertexB t u = true ↔ IsVertex t u := by
+  simp [isVertexB, IsVertex, or_assoc]
 
-/-- on an edge `(u, v)` of a triangle the map is the linear interpolation of the two target vertices -/
-theorem triMap_edge (src tgt : ℕ → V2) (t : Tri) (h : TriNonDeg src t) (u v : ℕ) (hu : IsVertex t u)
-    (hv : IsVertex t v) (c : ℚ) :
-    triMap src tgt t (lerp c (src u) (src v)) = lerp c (tgt u) (tgt v) := by
-  rw [triMap_affine, triMap_vertex src tgt t h u hu, triMap_vertex src tgt t h v hv]
+theorem nondegB_iff (src : ℕ → V2) (t : Tri) : nondegB src t = true ↔ TriNonDeg src t := by
+  simp [nondegB, TriNonDeg, NonDeg]
 
-/-- **continuity across edges**: two triangles sharing the edge `(u, v)` map every point of that edge to the
-same place -/
-theorem pwa_edge_continuity (src tgt : ℕ → V2) (t t' : Tri) (h : TriNonDeg src t) (h' : TriNonDeg src t')
-    (u v : ℕ) (hu : IsVertex t u) (hv : IsVertex t v) (hu' : IsVertex t' u) (hv' : IsVertex t' v) (c : ℚ) :
-    triMap src tgt t (lerp c (src u) (src v)) = triMap src tgt t' (lerp c (src u) (src v)) := by
-  rw [triMap_edge src tgt t h u v hu hv, triMap_edge src tgt t' h' u v hu' hv']
+/-- three non-negative numbers with a non-positive sum are all zero -/
+theorem three_nonneg_zero {a b c : ℚ} (ha : 0 ≤ a) (hb : 0 ≤ b) (hc : 0 ≤ c) (h : a + b + c ≤ 0) :
+    a = 0 ∧ b = 0 ∧ c = 0 := ⟨by linarith, by linarith, by linarith⟩
 
-/-- what `_apply` returns is the map of *some* triangle that contains the point -/
-theorem pwaApply_some {src tgt : ℕ → V2} {tris : List Tri} {p q : V2} (h : pwaApply src tgt tris p = some q) :
-    ∃ t ∈ tris, containsAB (triAB src t p) = true ∧ q = triMap src tgt t p := by
-  simp only [pwaApply, pwaTri, Option.map_eq_some_iff] at h
-  obtain ⟨t, ht, rfl⟩ := h
-  have := List.mem_of_getLast? ht
-  rw [List.mem_filter] at this
-  exact ⟨t, this.1, this.2, rfl⟩
+/-- the heart of the certificate: if `pairOK` holds for `(t, t')`, a point in both triangles is a combination of
+vertices of `t` in which every vertex that is *not* also a vertex of `t'` has weight zero -/
+theorem pair_weights (src : ℕ → V2) (t t' : Tri) (h : TriNonDeg src t) (h' : TriNonDeg src t') (p : V2)
+    (hc : containsAB (triAB src t p) = true) (hc' : containsAB (triAB src t' p) = true)
+    (hp : pairOK src t t' = true) :
+    ∃ w0 w1 w2 : ℚ, w0 + w1 + w2 = 1 ∧ p = combo3 w0 w1 w2 (src t.1) (src t.2.1) (src t.2.2) ∧
+      (w0 = 0 ∨ IsVertex t' t.1) ∧ (w1 = 0 ∨ IsVertex t' t.2.1) ∧ (w2 = 0 ∨ IsVertex t' t.2.2) := by
+  obtain ⟨w0, w1, w2, h0, h1, h2, hs, hpe⟩ := contains_combo src t h p hc
+  refine ⟨w0, w1, w2, hs, hpe, ?_⟩
+  simp only [pairOK, Bool.or_eq_true, List.any_eq_true, Bool.and_eq_true] at hp
+  rcases hp with hsub | ⟨ab, _, hs1, cd, _, hs2⟩
+  · simp only [triVerts, List.all_cons, List.all_nil, Bool.and_true, Bool.and_eq_true, isVertexB_iff] at hsub
+    exact ⟨Or.inr hsub.1, Or.inr hsub.2.1, Or.inr hsub.2.2⟩
+  · obtain ⟨v0, v1, v2, g0, g1, g2, gs, gpe⟩ := contains_combo src t' h' p hc'
+    simp only [sep1, triVerts, List.all_cons, List.all_nil, Bool.and_true, Bool.and_eq_true, decide_eq_true_eq] at hs1
+    simp only [sep2, triVerts, List.all_cons, List.all_nil, Bool.and_true, Bool.and_eq_true, decide_eq_true_eq,
+      Bool.or_eq_true, bne_iff_ne, ne_eq, isVertexB_iff] at hs2
+    obtain ⟨⟨a0, a1, a2⟩, c0, c1, c2⟩ := hs1
+    obtain ⟨⟨b0, b1, b2⟩, d0, d1, d2⟩ := hs2
+    set ℓ := orient (src ab.1) (src ab.2) with hℓ
+    set m := orient (src cd.1) (src cd.2) with hm
+    have e1 : ℓ p = w0 * ℓ (src t.1) + w1 * ℓ (src t.2.1) + w2 * ℓ (src t.2.2) := by
+      rw [hpe]; exact orient_combo3 _ _ _ _ _ hs _ _ _
+    have e2 : ℓ p = v0 * ℓ (src t'.1) + v1 * ℓ (src t'.2.1) + v2 * ℓ (src t'.2.2) := by
+      conv_lhs => rw [gpe]
+      exact orient_combo3 _ _ _ _ _ gs _ _ _
+    have f1 : m p = w0 * m (src t.1) + w1 * m (src t.2.1) + w2 * m (src t.2.2) := by
+      rw [hpe]; exact orient_combo3 _ _ _ _ _ hs _ _ _
+    have f2 : m p = v0 * m (src t'.1) + v1 * m (src t'.2.1) + v2 * m (src t'.2.2) := by
+      conv_lhs => rw [gpe]
+      exact orient_combo3 _ _ _ _ _ gs _ _ _
+    -- first level: ℓ p = 0, so every weighted ℓ-term vanishes, on both sides
+    have n0 := mul_nonpos_of_nonneg_of_nonpos g0 c0
+    have n1 := mul_nonpos_of_nonneg_of_nonpos g1 c1
+    have n2 := mul_nonpos_of_nonneg_of_nonpos g2 c2
+    have p0 := mul_nonneg h0 a0
+    have p1 := mul_nonneg h1 a1
+    have p2 := mul_nonneg h2 a2
+    have hle : ℓ p ≤ 0 := by rw [e2]; linarith
+    have hge : 0 ≤ ℓ p := by rw [e1]; linarith
+    obtain ⟨z0, z1, z2⟩ := three_nonneg_zero p0 p1 p2 (by rw [← e1]; exact hle)
+    have y0 : v0 * ℓ (src t'.1) = 0 := by rw [e2] at hge; linarith
+    have y1 : v1 * ℓ (src t'.2.1) = 0 := by rw [e2] at hge; linarith
+    have y2 : v2 * ℓ (src t'.2.2) = 0 := by rw [e2] at hge; linarith
+    -- second level: every weighted m-term of `t` is ≥ 0, of `t'` is ≤ 0
+    have tpos : ∀ (w lx mx : ℚ) (P : Prop), 0 ≤ w → w * lx = 0 → (¬lx = 0 ∨ 0 ≤ mx ∧ P) → 0 ≤ w * mx := by
+      intro w lx mx P hw hz hb
+      rcases mul_eq_zero.1 hz with z | z
+      · rw [z]; simp
+      · exact mul_nonneg hw (hb.resolve_left (fun hne => hne z)).1
+    have tneg : ∀ (w lx mx : ℚ), 0 ≤ w → w * lx = 0 → (¬lx = 0 ∨ mx ≤ 0) → w * mx ≤ 0 := by
+      intro w lx mx hw hz hb
+      rcases mul_eq_zero.1 hz with z | z
+      · rw [z]; simp
+      · exact mul_nonpos_of_nonneg_of_nonpos hw (hb.resolve_left (fun hne => hne z))
+    have q0 := tpos w0 _ _ _ h0 z0 b0
+    have q1 := tpos w1 _ _ _ h1 z1 b1
+    have q2 := tpos w2 _ _ _ h2 z2 b2
+    have r0 := tneg v0 _ _ g0 y0 d0
+    have r1 := tneg v1 _ _ g1 y1 d1
+    have r2 := tneg v2 _ _ g2 y2 d2
+    have hmle : m p ≤ 0 := by rw [f2]; linarith
+    obtain ⟨u0, u1, u2⟩ := three_nonneg_zero q0 q1 q2 (by rw [← f1]; exact hmle)
+    -- a vertex of `t` with non-zero weight lies on both lines, hence is shared
+    have fin : ∀ (w lx mx : ℚ) (P : Prop), w * lx = 0 → w * mx = 0 → (¬lx = 0 ∨ 0 ≤ mx ∧ (¬mx = 0 ∨ P)) → w = 0 ∨ P := by
+      intro w lx mx P hz hu hb
+      by_cases hw : w = 0
+      · exact Or.inl hw
+      · have hl : lx = 0 := (mul_eq_zero.1 hz).resolve_left hw
+        have hmx : mx = 0 := (mul_eq_zero.1 hu).resolve_left hw
+        exact Or.inr (((hb.resolve_left (fun hne => hne hl)).2).resolve_left (fun hne => hne hmx))
+    exact ⟨fin w0 _ _ _ z0 u0 b0, fin w1 _ _ _ z1 u1 b1, fin w2 _ _ _ z2 u2 b2⟩
 
-/-- if some triangle contains `p` and all containing triangles agree on the image `q`, `_apply` returns `q`
-(no `TriangleContainmentError`) -/
-theorem pwaApply_eq_of_agree (src tgt : ℕ → V2) (tris : List Tri) (p q : V2)
-    (hex : ∃ t ∈ tris, containsAB (triAB src t p) = true)
-    (hag : ∀ t ∈ tris, containsAB (triAB src t p) = true → triMap src tgt t p = q) :
-    pwaApply src tgt tris p = some q := by
-  obtain ⟨t0, ht0, hc0⟩ := hex
-  have hne : (tris.filter fun t => containsAB (triAB src t p)) ≠ [] := by
-    intro h
-    have : t0 ∈ tris.filter fun t => containsAB (triAB src t p) := List.mem_filter.2 ⟨ht0, hc0⟩
-    rw [h] at this; exact absurd this (by simp)
-  simp only [pwaApply, pwaTri]
-  rw [List.getLast?_eq_some_getLast hne]
-  simp only [Option.map_some, Option.some.injEq]
-  have hm := List.getLast_mem hne
-  rw [List.mem_filter] at hm
-  exact hag _ hm.1 hm.2
+theorem smul_eq_of (w : ℚ) (A B : V2) (h : w = 0 ∨ A = B) : V2.smul w A = V2.smul w B := by
+  rcases h with h | h
+  · subst h; simp [V2.smul]
+  · rw [h]
 
-/-- **piecewise affine sends every source landmark exactly onto its target landmark** (conforming mesh:
-a triangle whose closure contains vertex `v` has `v` as a vertex; `v` belongs to some triangle) -/
-theorem pwa_interpolates (src tgt : ℕ → V2) (tris : List Tri) (hnd : ∀ t ∈ tris, TriNonDeg src t) (v : ℕ)
-    (hconf : ∀ t ∈ tris, containsAB (triAB src t (src v)) = true → IsVertex t v)
-    (hv : ∃ t ∈ tris, IsVertex t v) : pwaApply src tgt tris (src v) = some (tgt v) := by
-  apply pwaApply_eq_of_agree
-  · obtain ⟨t, ht, hvt⟩ := hv
-    exact ⟨t, ht, contains_vertex src t (hnd t ht) v hvt⟩
-  · intro t ht hc
-    exact triMap_vertex src tgt t (hnd t ht) v (hconf t ht hc)
+/-- two triangles that pass the pair check agree on every point they both contain -/
+theorem pair_agree (src tgt : ℕ → V2) (t t' : Tri) (h : TriNonDeg src t) (h' : TriNonDeg src t') (p : V2)
+    (hc : containsAB (triAB src t p) = true) (hc' : containsAB (triAB src t' p) = true)
+    (hp : pairOK src t t' = true) : triMap src tgt t p = triMap src tgt t' p := by
+  obtain ⟨w0, w1, w2, hs, hpe, q0, q1, q2⟩ := pair_weights src t t' h h' p hc hc' hp
+  rw [hpe, triMap_combo3 src tgt t _ _ _ hs, triMap_combo3 src tgt t' _ _ _ hs,
+    triMap_vertex src tgt t h t.1 (Or.inl rfl), triMap_vertex src tgt t h t.2.1 (Or.inr (Or.inl rfl)),
+    triMap_vertex src tgt t h t.2.2 (Or.inr (Or.inr rfl))]
+  unfold combo3
+  rw [smul_eq_of w0 (tgt t.1) (triMap src tgt t' (src t.1)) (q0.imp id fun hv => (triMap_vertex src tgt t' h' _ hv).symm),
+    smul_eq_of w1 (tgt t.2.1) (triMap src tgt t' (src t.2.1)) (q1.imp id fun hv => (triMap_vertex src tgt t' h' _ hv).symm),
+    smul_eq_of w2 (tgt t.2.2) (triMap src tgt t' (src t.2.2)) (q2.imp id fun hv => (triMap_vertex src tgt t' h' _ hv).symm)]
 
-/-- inside a triangle (only that triangle contains the point) `_apply` is that triangle's affine map -/
-theorem pwa_affine_in_triangle (src tgt : ℕ → V2) (tris : List Tri) (t : Tri) (ht : t ∈ tris) (p : V2)
-    (hc : containsAB (triAB src t p) = true)
-    (huniq : ∀ t' ∈ tris, containsAB (triAB src t' p) = true → t' = t) :
+theorem pwaCert_nondeg {src : ℕ → V2} {tris : List Tri} (hcert : pwaCertB src tris = true) :
+    ∀ t ∈ tris, TriNonDeg src t := by
+  simp only [pwaCertB, Bool.and_eq_true, List.all_eq_true] at hcert
+  exact fun t ht => (nondegB_iff src t).1 (hcert.1 t ht)
+
+/-- **the piecewise-affine map is single-valued on a certified triangulation**: all triangles containing a point
+send it to the same place (continuity across edges and at vertices, for every target) -/
+theorem pwa_single_valued (src tgt : ℕ → V2) (tris : List Tri) (hcert : pwaCertB src tris = true)
+    (t t' : Tri) (ht : t ∈ tris) (ht' : t' ∈ tris) (p : V2)
+    (hc : containsAB (triAB src t p) = true) (hc' : containsAB (triAB src t' p) = true) :
+    triMap src tgt t p = triMap src tgt t' p := by
+  have hnd := pwaCert_nondeg hcert
+  simp only [pwaCertB, Bool.and_eq_true, List.all_eq_true] at hcert
+  have h2 := hcert.2 t ht t' ht'
+  simp only [pairOK2, Bool.or_eq_true] at h2
+  rcases h2 with h2 | h2
+  · exact pair_agree src tgt t t' (hnd t ht) (hnd t' ht') p hc hc' h2
+  · exact (pair_agree src tgt t' t (hnd t' ht') (hnd t ht) p hc' hc h2).symm
+
+/-- **affine on every closed source triangle**: on a certified triangulation `_apply` at a point of triangle `t`
+(interior, edge or vertex) is `t`'s affine map, whichever containing triangle the code picks -/
+theorem pwa_affine_on_closed_triangle (src tgt : ℕ → V2) (tris : List Tri) (hcert : pwaCertB src tris = true)
+    (t : Tri) (ht : t ∈ tris) (p : V2) (hc : containsAB (triAB src t p) = true) :
     pwaApply src tgt tris p = some (triMap src tgt t p) :=
-  pwaApply_eq_of_agree src tgt tris p _ ⟨t, ht, hc⟩ (fun t' ht' hc' => by rw [huniq t' ht' hc'])
+  pwaApply_eq_of_agree src tgt tris p _ ⟨t, ht, hc⟩
+    (fun t' ht' hc' => pwa_single_valued src tgt tris hcert t' t ht' ht p hc' hc)
 
-/-- on a shared edge of a conforming mesh (every triangle containing the edge point has both end points as
-vertices) `_apply` returns the interpolation of the two target landmarks, whichever triangle it picks -/
-theorem pwa_on_edge (src tgt : ℕ → V2) (tris : List Tri) (hnd : ∀ t ∈ tris, TriNonDeg src t) (u v : ℕ) (c : ℚ)
-    (hex : ∃ t ∈ tris, containsAB (triAB src t (lerp c (src u) (src v))) = true)
-    (hconf : ∀ t ∈ tris, containsAB (triAB src t (lerp c (src u) (src v))) = true → IsVertex t u ∧ IsVertex t v) :
-    pwaApply src tgt tris (lerp c (src u) (src v)) = some (lerp c (tgt u) (tgt v)) :=
-  pwaApply_eq_of_agree src tgt tris _ _ hex
-    (fun t ht hc => triMap_edge src tgt t (hnd t ht) u v (hconf t ht hc).1 (hconf t ht hc).2 c)
+/-- **interpolation from the certificate alone**: every landmark that is a vertex of some triangle is sent exactly
+onto its target landmark (no conformity hypothesis left) -/
+theorem pwa_interpolates_cert (src tgt : ℕ → V2) (tris : List Tri) (hcert : pwaCertB src tris = true) (v : ℕ)
+    (hv : ∃ t ∈ tris, IsVertex t v) : pwaApply src tgt tris (src v) = some (tgt v) := by
+  obtain ⟨t, ht, hvt⟩ := hv
+  have hnd := pwaCert_nondeg hcert t ht
+  rw [pwa_affine_on_closed_triangle src tgt tris hcert t ht (src v) (contains_vertex src t hnd v hvt),
+    triMap_vertex src tgt t hnd v hvt]
 
-/-! ### non-vacuity: every hypothesis above is satisfiable on concrete, non-trivial data -/
+/-- **edge values from the certificate alone**: a point of an edge `(u, v)` of some triangle is sent to the same
+interpolation of the two target landmarks -/
+theorem pwa_on_edge_cert (src tgt : ℕ → V2) (tris : List Tri) (hcert : pwaCertB src tris = true) (t : Tri)
+    (ht : t ∈ tris) (u v : ℕ) (hu : IsVertex t u) (hv : IsVertex t v) (c : ℚ)
+    (hc : containsAB (triAB src t (lerp c (src u) (src v))) = true) :
+    pwaApply src tgt tris (lerp c (src u) (src v)) = some (lerp c (tgt u) (tgt v)) := by
+  rw [pwa_affine_on_closed_triangle src tgt tris hcert t ht _ hc,
+    triMap_edge src tgt t (pwaCert_nondeg hcert t ht) u v hu hv c]
 
-section Examples
+/-! ### piecewise affine recovers affine maps exactly -/
 
-def exS : Mat 4 2 := fun i j => ((#[#[(0:Rat),1],#[1,1],#[-1,-5],#[3,-5]] : Array (Array Rat)).getD i.val #[]).getD j.val 0
-def exT : Mat 4 2 := fun i j => ((#[#[(2:Rat),1],#[1,3],#[-1,-4],#[5,-5]] : Array (Array Rat)).getD i.val #[]).getD j.val 0
+/-- a 2-D affine map -/
+def affV2 (a b c d e f : ℚ) (p : V2) : V2 := ⟨a * p.x + b * p.y + e, c * p.x + d * p.y + f⟩
 
-/-- the affine fit exists on a generic 4-point example (so `affineFit S T = some H` is satisfiable) -/
-example : (affineFit exS exT).isSome = true := by decide +kernel
-example : ∃ H, affineFit exS exT = some H ∧ ∀ H', IsAff H' → err2 (applyH H exS) exT ≤ err2 (applyH H' exS) exT := by
-  have h : (affineFit exS exT).isSome = true := by decide +kernel
-  obtain ⟨H, hH⟩ := Option.isSome_iff_exists.1 h
-  exact ⟨H, hH, fun H' hH' => affine_ls_optimal hH H' hH'⟩
-example : IsAff (translationH (fun _ => (3 : ℚ)) : HMat 2) := isAff_translationH _
+/-- when the target vertices of a non-degenerate triangle are the affine image of its source vertices, the
+triangle's map is that affine map — at every point of the plane -/
+theorem triMap_recovers_affine (src tgt : ℕ → V2) (t : Tri) (h : TriNonDeg src t) (a b c d e f : ℚ)
+    (hv : ∀ u, IsVertex t u → tgt u = affV2 a b c d e f (src u)) (p : V2) :
+    triMap src tgt t p = affV2 a b c d e f p := by
+  have hp := alpha_beta_reconstruct (src t.1) (V2.sub (src t.2.1) (src t.1)) (V2.sub (src t.2.2) (src t.1)) p h
+  have h1 := hv t.1 (Or.inl rfl)
+  have h2 := hv t.2.1 (Or.inr (Or.inl rfl))
+  have h3 := hv t.2.2 (Or.inr (Or.inr rfl))
+  unfold triMap triAB
+  rw [h1, h2, h3]
+  generalize alphaBeta (src t.1) (V2.sub (src t.2.1) (src t.1)) (V2.sub (src t.2.2) (src t.1)) p = ab at hp ⊢
+  rw [← hp]
+  simp only [affV2, V2.add, V2.sub, V2.smul]
+  ext <;> simp only <;> ring
 
-/-- an exact rational SVD: `U` a proper rotation, `Vt` a reflection (so `det (U·Vt) = -1`: the corrected branch) -/
-def exU : Mat 2 2 := fun i j => ((#[#[(3:Rat)/5,-4/5],#[4/5,3/5]] : Array (Array Rat)).getD i.val #[]).getD j.val 0
-def exVt : Mat 2 2 := fun i j => ((#[#[(5:Rat)/13,12/13],#[12/13,-5/13]] : Array (Array Rat)).getD i.val #[]).getD j.val 0
-def exD : Vec 2 := fun i => (#[(2:Rat),1] : Array Rat).getD i.val 0
-def exS2 : Mat 2 2 := one
-def exT2 : Mat 2 2 := tr (mul exU (mul (fun i j => if i = j then exD i else 0) exVt))
+/-- **exact recovery of an affine map by the piecewise-affine alignment**: target = affine(source) on every
+landmark ⇒ wherever `_apply` answers, it answers the affine image -/
+theorem pwa_recovers_affine (src tgt : ℕ → V2) (tris : List Tri) (hnd : ∀ t ∈ tris, TriNonDeg src t)
+    (a b c d e f : ℚ) (hv : ∀ t ∈ tris, ∀ u, IsVertex t u → tgt u = affV2 a b c d e f (src u)) (p q : V2)
+    (h : pwaApply src tgt tris p = some q) : q = affV2 a b c d e f p := by
+  obtain ⟨t, ht, _, rfl⟩ := pwaApply_some h
+  exact triMap_recovers_affine src tgt t (hnd t ht) a b c d e f (hv t ht) p
 
-example : SvdOK (corr exS2 exT2) exU exD exVt := svdContractB_sound (by decide +kernel)
-example : det (mul exU exVt) = -1 := by decide +kernel
-example : IsOrth exU ∧ det exU = 1 :=
-  ⟨⟨matEqB_eq (by decide +kernel), matEqB_eq (by decide +kernel)⟩, by decide +kernel⟩
-/-- the constrained theorem applies to this data, against the concrete competitor `exU` -/
-example : err2 (applyH (rotationH (rotFit false exU exVt)) exS2) exT2 ≤ err2 (applyH (rotationH exU) exS2) exT2 :=
-  rotation_ls_optimal_2d exS2 exT2 (D := exD) (svdContractB_sound (by decide +kernel)) exU
-    ⟨matEqB_eq (by decide +kernel), matEqB_eq (by decide +kernel)⟩ (by decide +kernel)
+/-! ### generalized Procrustes analysis -/
 
-/-- norm contracts with rational square roots: `norm2 = 4` and `16` -/
-def exS3 : Mat 4 2 := fun i j => ((#[#[(1:Rat),0],#[-1,0],#[0,1],#[0,-1]] : Array (Array Rat)).getD i.val #[]).getD j.val 0
-def exT3 : Mat 4 2 := fun i j => ((#[#[(5:Rat),3],#[5,-1],#[3,1],#[7,1]] : Array (Array Rat)).getD i.val #[]).getD j.val 0
-example : (2 : ℚ) * 2 = norm2 exS3 ∧ (4 : ℚ) * 4 = norm2 exT3 ∧ (0 : ℚ) < 2 := by
-  refine ⟨by decide +kernel, by decide +kernel, by norm_num⟩
-example : norm2 (applyH (fitScale 4 2) exS3) = norm2 exT3 :=
-  scale_reproduces_size exS3 exT3 4 2 (by decide +kernel) (by decide +kernel) (by norm_num)
+section Gpa
+variable {k n d : ℕ}
 
-/-- piecewise affine: unit square split along the diagonal -/
-def exSrc : ℕ → V2 := fun i => #[(⟨0,0⟩ : V2), ⟨1,0⟩, ⟨0,1⟩, ⟨1,1⟩].getD i ⟨0,0⟩
-def exTgt : ℕ → V2 := fun i => #[(⟨2,1⟩ : V2), ⟨5,1⟩, ⟨1,4⟩, ⟨6,7⟩].getD i ⟨0,0⟩
-def exTris : List Tri := [(0, 1, 2), (1, 3, 2)]
+/-- the contract of the externals consumed by one `procrustes_alignment(S, T)` -/
+structure SimWitOK (w : SimWit d) (S T : Mat n d) : Prop where
+  normT : w.rT * w.rT = norm2 T
+  normS : w.rS * w.rS = norm2 S
+  posS : w.rS ≠ 0
+  svd : ∃ D, SvdOK (corr (simAlignedSrc (w.rT / w.rS) S) (simAlignedTgt T)) w.U D w.Vt
 
-example : ∀ t ∈ exTris, TriNonDeg exSrc t := by
-  intro t ht
-  simp only [exTris, List.mem_cons, List.not_mem_nil, or_false] at ht
-  rcases ht with rfl | rfl <;> (unfold TriNonDeg NonDeg; decide +kernel)
-example : pwaApply exSrc exTgt exTris (exSrc 3) = some (exTgt 3) := by decide +kernel
-/-- the diagonal edge (1,2) is shared: both triangles contain its midpoint and agree there -/
-example : containsAB (triAB exSrc (0, 1, 2) (lerp (1/2) (exSrc 1) (exSrc 2))) = true ∧
-    containsAB (triAB exSrc (1, 3, 2) (lerp (1/2) (exSrc 1) (exSrc 2))) = true := by
-  constructor <;> decide +kernel
-example : pwaApply exSrc exTgt exTris (lerp (1/2) (exSrc 1) (exSrc 2)) = some (lerp (1/2) (exTgt 1) (exTgt 2)) := by
+theorem getD_ofFn_tab (f : Fin k → Tab) (a : Fin k) : (Array.ofFn f).getD a.val #[] = f a := by
+  simp [Array.getD]
+
+theorem ofArr_simAlignTab (mirror : Bool) (w : SimWit d) (S T : Mat n d) :
+    (ofArr (simAlignTab mirror w S T) : HMat d) = simAlign mirror w S T := by
+  simp only [simAlignTab, ofArr_toArr, simAlign, simFit, if_true]
+
+theorem transform_fitAll (mirror : Bool) (sources : Fin k → Mat n d) (sims : Fin k → SimWit d) (T : Mat n d)
+    (tg : Tab) (it : ℕ) (cv : Bool) (sm : Fin k → SimWit d) (a : Fin k) :
+    (GpaState.transform { transforms := gpaFitAll mirror sources sims T, target := tg, nIter := it, converged := cv,
+                          sims := sm } a : HMat d) = simAlign mirror (sims a) (sources a) T := by
+  simp only [GpaState.transform, gpaFitAll, getD_ofFn_tab, ofArr_simAlignTab]
+
+/-- what `gpaNewTarget` tabulates: the mean aligned source, rescaled about its centre -/
+theorem ofArr_gpaNewTarget (sources : Fin k → Mat n d) (s nn : ℚ) (trs : Fin k → HMat d) :
+    (ofArr (gpaNewTarget sources s nn trs) : Mat n d) =
+      applyH (scaleAboutCentreH (meanPts fun a => applyH (trs a) (sources a)) (s / nn))
+        (meanPts fun a => applyH (trs a) (sources a)) := by
+  simp only [gpaNewTarget, ofArr_toArr]
+
+/-- the invariant of `_recursive_procrustes`: every transform is the similarity alignment of its source to the
+current common target, computed from the recorded externals -/
+def GpaInv (mirror : Bool) (sources : Fin k → Mat n d) (st : GpaState k d) : Prop :=
+  ∀ a, st.transform a = simAlign mirror (st.sims a) (sources a) (st.tgt n)
+
+theorem gpaRec_inv (mirror : Bool) (sources : Fin k → Mat n d) (initScale : ℚ) (ws : ℕ → GpaWit k d) :
+    ∀ (fuel : ℕ) (st : GpaState k d), GpaInv mirror sources st →
+      GpaInv mirror sources (gpaRec mirror sources initScale ws fuel st) := by
+  intro fuel
+  induction fuel with
+  | zero => intro st h; exact h
+  | succ f ih =>
+    intro st h
+    unfold gpaRec
+    dsimp only
+    split_ifs
+    · exact h
+    · apply ih
+      intro a
+      exact transform_fitAll ..
+
+theorem gpa_none_iff (mirror : Bool) (sources : Fin k → Mat n d) (target : Option (Mat n d)) (w0 : Fin k → SimWit d)
+    (initScale : ℚ) (maxIter : ℕ) (ws : ℕ → GpaWit k d) :
+    gpa mirror sources target w0 initScale maxIter ws = none ↔ (k < 2 ∧ target = none) := by
+  unfold gpa
+  cases target <;> by_cases hk : k < 2 <;> simp [hk]
+
+/-- **on every exit path (converged, or out of iterations) each transform GPA returns is the similarity alignment
+of its source to the final common target** -/
+theorem gpa_transforms_are_alignments {mirror : Bool} {sources : Fin k → Mat n d} {target : Option (Mat n d)}
+    {w0 : Fin k → SimWit d} {initScale : ℚ} {maxIter : ℕ} {ws : ℕ → GpaWit k d} {r : GpaResult k d}
+    (h : gpa mirror sources target w0 initScale maxIter ws = some r) (a : Fin k) :
+    r.state.transform a = simAlign mirror (r.state.sims a) (sources a) (r.state.tgt n) := by
+  unfold gpa at h
+  split_ifs at h
+  simp only [Option.some.injEq] at h
+  subst h
+  refine gpaRec_inv mirror sources initScale ws maxIter _ ?_ a
+  intro a
+  rw [transform_fitAll]
+  simp [GpaState.tgt]
+
+/-! #### what the alignments GPA returns satisfy (from the single-alignment theorems) -/
+
+/-- **every GPA transform reproduces the centroid of the final target** (no contract needed) -/
+theorem gpa_reproduces_centroid (hn : n ≠ 0) {mirror : Bool} {sources : Fin k → Mat n d} {target : Option (Mat n d)}
+    {w0 : Fin k → SimWit d} {initScale : ℚ} {maxIter : ℕ} {ws : ℕ → GpaWit k d} {r : GpaResult k d}
+    (h : gpa mirror sources target w0 initScale maxIter ws = some r) (a : Fin k) :
+    centroid (applyH (r.state.transform a) (sources a)) = centroid (r.state.tgt n) := by
+  rw [gpa_transforms_are_alignments h a]
+  exact similarity_reproduces_centroid hn true _ _ _ _ _
+
+/-- **every GPA transform reproduces the size of the final target** (norm contract, orthogonal SVD factors) -/
+theorem gpa_reproduces_size (hn : n ≠ 0) {mirror : Bool} {sources : Fin k → Mat n d} {target : Option (Mat n d)}
+    {w0 : Fin k → SimWit d} {initScale : ℚ} {maxIter : ℕ} {ws : ℕ → GpaWit k d} {r : GpaResult k d}
+    (h : gpa mirror sources target w0 initScale maxIter ws = some r) (a : Fin k)
+    (hw : SimWitOK (r.state.sims a) (sources a) (r.state.tgt n)) :
+    norm2 (applyH (r.state.transform a) (sources a)) = norm2 (r.state.tgt n) := by
+  rw [gpa_transforms_are_alignments h a]
+  obtain ⟨D, hD⟩ := hw.svd
+  exact similarity_reproduces_size hn true _ _ _ (fun _ => rotFit_isOrth mirror hD.orthU hD.orthV) _ _ hw.normT hw.normS
+    hw.posS
+
+/-- **every GPA transform uses the least-squares rotation** — mirroring allowed, every dimension -/
+theorem gpa_uses_ls_rotation_mirror {sources : Fin k → Mat n d} {target : Option (Mat n d)}
+    {w0 : Fin k → SimWit d} {initScale : ℚ} {maxIter : ℕ} {ws : ℕ → GpaWit k d} {r : GpaResult k d}
+    (h : gpa true sources target w0 initScale maxIter ws = some r) (a : Fin k)
+    (hw : SimWitOK (r.state.sims a) (sources a) (r.state.tgt n)) (Q : Mat d d) (hQ : IsOrth Q) :
+    err2 (applyH (r.state.transform a) (sources a)) (r.state.tgt n) ≤
+      err2 (applyH (simFit true (r.state.sims a).rT (r.state.sims a).rS Q (sources a) (r.state.tgt n)) (sources a))
+        (r.state.tgt n) := by
+  rw [gpa_transforms_are_alignments h a]
+  obtain ⟨D, hD⟩ := hw.svd
+  exact similarity_uses_ls_rotation_mirror _ _ _ _ hD Q hQ
+
+theorem gpa_uses_ls_rotation_2d {n : ℕ} {sources : Fin k → Mat n 2} {target : Option (Mat n 2)}
+    {w0 : Fin k → SimWit 2} {initScale : ℚ} {maxIter : ℕ} {ws : ℕ → GpaWit k 2} {r : GpaResult k 2}
+    (h : gpa false sources target w0 initScale maxIter ws = some r) (a : Fin k)
+    (hw : SimWitOK (r.state.sims a) (sources a) (r.state.tgt n)) (Q : Mat 2 2) (hQ : IsOrth Q) (hQd : det Q = 1) :
+    err2 (applyH (r.state.transform a) (sources a)) (r.state.tgt n) ≤
+      err2 (applyH (simFit true (r.state.sims a).rT (r.state.sims a).rS Q (sources a) (r.state.tgt n)) (sources a))
+        (r.state.tgt n) := by
+  rw [gpa_transforms_are_alignments h a]
+  obtain ⟨D, hD⟩ := hw.svd
+  exact similarity_uses_ls_rotation_2d _ _ _ _ hD Q hQ hQd
+
+theorem gpa_uses_ls_rotation_3d {n : ℕ} {sources : Fin k → Mat n 3} {target : Option (Mat n 3)}
+    {w0 : Fin k → SimWit 3} {initScale : ℚ} {maxIter : ℕ} {ws : ℕ → GpaWit k 3} {r : GpaResult k 3}
+    (h : gpa false sources target w0 initScale maxIter ws = some r) (a : Fin k)
+    (hw : SimWitOK (r.state.sims a) (sources a) (r.state.tgt n)) (Q : Mat 3 3) (hQ : IsOrth Q) (hQd : det Q = 1) :
+    err2 (applyH (r.state.transform a) (sources a)) (r.state.tgt n) ≤
+      err2 (applyH (simFit true (r.state.sims a).rT (r.state.sims a).rS Q (sources a) (r.state.tgt n)) (sources a))
+        (r.state.tgt n) := by
+  rw [gpa_transforms_are_alignments h a]
+  obtain ⟨D, hD⟩ := hw.svd
+  exact similarity_uses_ls_rotation_3d _ _ _ _ hD Q hQ hQd
+
+/-- the linear part of a similarity alignment is `(rT/rS) · R` -/
+theorem linPart_simFit_rot (rT rS : ℚ) (R : Mat d d) (S T : Mat n d) :
+    linPart (simFit true rT rS R S T) = smul (rT / rS) R := by
+  funext i j
+  -- probe the map with the identity's columns: apply to the two point sets `0` and `e_j`
+  have key : ∀ (P : Mat 1 d), applyH (simFit true rT rS R S T) P 0 i =
+      (∑ l, (rT / rS * (P 0 l - centroid S l)) * R i l) + centroid T i := by
+    intro P
+    unfold simFit
+    simp only [if_true]
+    rw [applyH_mul _ _ (isAff_mul (isAff_rotationH _) (isAff_simP0 _ _)), applyH_mul _ _ (isAff_simP0 _ _),
+      applyH_translation, applyH_rotation]
+    simp only [mul, tr, sumF_eq]
+    congr 1
+    apply Finset.sum_congr rfl; intro l _
+    unfold simP0
+    rw [applyH_mul _ _ (isAff_mul (isAff_translationH _) isAff_one), applyH_mul _ _ isAff_one, applyH_one, applyH_scale,
+      applyH_translation]
+    simp only [negV]; ring
+  have h0 := key (fun _ _ => 0)
+  have h1 := key (fun _ l => if l = j then 1 else 0)
+  simp only [applyH, sumF_eq] at h0 h1
+  have e : (∑ l, (if l = j then (1 : ℚ) else 0) * linPart (simFit true rT rS R S T) i l) =
+      linPart (simFit true rT rS R S T) i j := by simp
+  have e0 : (∑ l : Fin d, (0 : ℚ) * linPart (simFit true rT rS R S T) i l) = 0 := by simp
+  rw [e] at h1; rw [e0] at h0
+  have e2 : (∑ l, (rT / rS * ((if l = j then (1 : ℚ) else 0) - centroid S l)) * R i l) =
+      (∑ l, (rT / rS * ((0 : ℚ) - centroid S l)) * R i l) + rT / rS * R i j := by
+    have : ∀ l, (rT / rS * ((if l = j then (1 : ℚ) else 0) - centroid S l)) * R i l =
+        (rT / rS * ((0 : ℚ) - centroid S l)) * R i l + (if l = j then rT / rS * R i l else 0) := by
+      intro l; split_ifs <;> ring
+    simp only [this, Finset.sum_add_distrib, Finset.sum_ite_eq', Finset.mem_univ, if_true]
+  rw [e2] at h1
+  simp only [smul]
+  linarith
+
+/-- **no GPA transform is a reflection unless mirroring was allowed** (2-D): its linear part is a non-negative
+multiple of a proper rotation -/
+theorem gpa_no_reflection_2d {n : ℕ} {sources : Fin k → Mat n 2} {target : Option (Mat n 2)}
+    {w0 : Fin k → SimWit 2} {initScale : ℚ} {maxIter : ℕ} {ws : ℕ → GpaWit k 2} {r : GpaResult k 2}
+    (h : gpa false sources target w0 initScale maxIter ws = some r) (a : Fin k)
+    (hw : SimWitOK (r.state.sims a) (sources a) (r.state.tgt n)) :
+    ∃ R : Mat 2 2, IsOrth R ∧ det R = 1 ∧
+      linPart (r.state.transform a) = smul ((r.state.sims a).rT / (r.state.sims a).rS) R := by
+  obtain ⟨D, hD⟩ := hw.svd
+  refine ⟨rotFit false (r.state.sims a).U (r.state.sims a).Vt, rotFit_isOrth _ hD.orthU hD.orthV,
+    rotation_no_reflection_2d hD.orthU hD.orthV, ?_⟩
+  rw [gpa_transforms_are_alignments h a]
+  exact linPart_simFit_rot ..
+
+theorem gpa_no_reflection_3d {n : ℕ} {sources : Fin k → Mat n 3} {target : Option (Mat n 3)}
+    {w0 : Fin k → SimWit 3} {initScale : ℚ} {maxIter : ℕ} {ws : ℕ → GpaWit k 3} {r : GpaResult k 3}
+    (h : gpa false sources target w0 initScale maxIter ws = some r) (a : Fin k)
+    (hw : SimWitOK (r.state.sims a) (sources a) (r.state.tgt n)) :
+    ∃ R : Mat 3 3, IsOrth R ∧ det R = 1 ∧
+      linPart (r.state.transform a) = smul ((r.state.sims a).rT / (r.state.sims a).rS) R := by
+  obtain ⟨D, hD⟩ := hw.svd
+  refine ⟨rotFit false (r.state.sims a).U (r.state.sims a).Vt, rotFit_isOrth _ hD.orthU hD.orthV,
+    rotation_no_reflection_3d hD.orthU hD.orthV, ?_⟩
+  rw [gpa_transforms_are_alignments h a]
+  exact linPart_simFit_rot ..
+
+/-! #### the iteration itself: reported target, convergence test, iteration bound, mean and rescale -/
+
+/-- without a given target GPA reports the common target of its transforms -/
+theorem gpa_reported_target_none {mirror : Bool} {sources : Fin k → Mat n d}
+    {w0 : Fin k → SimWit d} {initScale : ℚ} {maxIter : ℕ} {ws : ℕ → GpaWit k d} {r : GpaResult k d}
+    (h : gpa mirror sources none w0 initScale maxIter ws = some r) : r.reported = r.state.target := by
+  unfold gpa at h
+  split_ifs at h
+  simp only [Option.some.injEq] at h
+  subst h; rfl
+
+/-- with a given target GPA reports *that* target (the transforms are aligned to `r.state.target`, which in general
+is a different point set: the last rescaled mean) -/
+theorem gpa_reported_target_some {mirror : Bool} {sources : Fin k → Mat n d} (t : Mat n d)
+    {w0 : Fin k → SimWit d} {initScale : ℚ} {maxIter : ℕ} {ws : ℕ → GpaWit k d} {r : GpaResult k d}
+    (h : gpa mirror sources (some t) w0 initScale maxIter ws = some r) : (ofArr r.reported : Mat n d) = t := by
+  unfold gpa at h
+  split_ifs at h
+  simp only [Option.some.injEq] at h
+  subst h
+  simp only [ofArr_toArr]
+
+/-- `converged = True` means what it says: the rescaled mean of the aligned sources is within `1e-6` of the target
+the transforms are aligned to -/
+theorem gpaRec_converged_spec (mirror : Bool) (sources : Fin k → Mat n d) (initScale : ℚ) (ws : ℕ → GpaWit k d) :
+    ∀ (fuel : ℕ) (st : GpaState k d),
+      (gpaRec mirror sources initScale ws fuel st).converged = true →
+      err2 ((gpaRec mirror sources initScale ws fuel st).tgt n)
+        (ofArr (gpaNewTarget sources initScale (ws (gpaRec mirror sources initScale ws fuel st).nIter).newNorm
+          (gpaRec mirror sources initScale ws fuel st).transform) : Mat n d) < gpaTol2 := by
+  intro fuel
+  induction fuel with
+  | zero => intro st h; simp [gpaRec] at h
+  | succ f ih =>
+    intro st
+    unfold gpaRec
+    dsimp only
+    split_ifs with hc
+    · intro _; exact hc
+    · intro h; exact ih _ h
+
+/-- `converged = False` only on the `n_iterations > max_iterations` exit -/
+theorem gpaRec_not_converged_spec (mirror : Bool) (sources : Fin k → Mat n d) (initScale : ℚ) (ws : ℕ → GpaWit k d) :
+    ∀ (fuel : ℕ) (st : GpaState k d),
+      (gpaRec mirror sources initScale ws fuel st).converged = false →
+      (gpaRec mirror sources initScale ws fuel st).nIter = st.nIter + fuel := by
+  intro fuel
+  induction fuel with
+  | zero => intro st _; simp [gpaRec]
+  | succ f ih =>
+    intro st
+    unfold gpaRec
+    dsimp only
+    split_ifs with hc
+    · intro h; simp at h
+    · intro h; rw [ih _ h]; simp only []; omega
+
+theorem gpaRec_nIter_le (mirror : Bool) (sources : Fin k → Mat n d) (initScale : ℚ) (ws : ℕ → GpaWit k d) :
+    ∀ (fuel : ℕ) (st : GpaState k d),
+      st.nIter ≤ (gpaRec mirror sources initScale ws fuel st).nIter ∧
+      (gpaRec mirror sources initScale ws fuel st).nIter ≤ st.nIter + fuel := by
+  intro fuel
+  induction fuel with
+  | zero => intro st; simp [gpaRec]
+  | succ f ih =>
+    intro st
+    unfold gpaRec
+    dsimp only
+    split_ifs with hc
+    · simp
+    · have := ih { transforms := gpaFitAll mirror sources (ws st.nIter).sims
+                      (ofArr (gpaNewTarget sources initScale (ws st.nIter).newNorm st.transform) : Mat n d)
+                   target := gpaNewTarget sources initScale (ws st.nIter).newNorm st.transform
+                   nIter := st.nIter + 1, converged := false, sims := (ws st.nIter).sims }
+      dsimp only at this
+      omega
+
+theorem gpa_converged_spec {mirror : Bool} {sources : Fin k → Mat n d} {target : Option (Mat n d)}
+    {w0 : Fin k → SimWit d} {initScale : ℚ} {maxIter : ℕ} {ws : ℕ → GpaWit k d} {r : GpaResult k d}
+    (h : gpa mirror sources target w0 initScale maxIter ws = some r) (hc : r.state.converged = true) :
+    err2 (r.state.tgt n)
+      (ofArr (gpaNewTarget sources initScale (ws r.state.nIter).newNorm r.state.transform) : Mat n d) < gpaTol2 := by
+  unfold gpa at h
+  split_ifs at h
+  simp only [Option.some.injEq] at h
+  subst h
+  exact gpaRec_converged_spec mirror sources initScale ws maxIter _ hc
+
+theorem gpa_not_converged_spec {mirror : Bool} {sources : Fin k → Mat n d} {target : Option (Mat n d)}
+    {w0 : Fin k → SimWit d} {initScale : ℚ} {maxIter : ℕ} {ws : ℕ → GpaWit k d} {r : GpaResult k d}
+    (h : gpa mirror sources target w0 initScale maxIter ws = some r) (hc : r.state.converged = false) :
+    r.state.nIter = maxIter + 1 := by
+  unfold gpa at h
+  split_ifs at h
+  simp only [Option.some.injEq] at h
+  subst h
+  rw [gpaRec_not_converged_spec mirror sources initScale ws maxIter _ hc]
+  show 1 + maxIter = maxIter + 1
+  omega
+
+theorem gpaRec_nIter_from_one (mirror : Bool) (sources : Fin k → Mat n d) (initScale : ℚ) (ws : ℕ → GpaWit k d)
+    (fuel : ℕ) (st : GpaState k d) (h1 : st.nIter = 1) :
+    1 ≤ (gpaRec mirror sources initScale ws fuel st).nIter ∧
+      (gpaRec mirror sources initScale ws fuel st).nIter ≤ fuel + 1 := by
+  have := gpaRec_nIter_le mirror sources initScale ws fuel st
+  omega
+
+theorem gpa_nIter_le {mirror : Bool} {sources : Fin k → Mat n d} {target : Option (Mat n d)}
+    {w0 : Fin k → SimWit d} {initScale : ℚ} {maxIter : ℕ} {ws : ℕ → GpaWit k d} {r : GpaResult k d}
+    (h : gpa mirror sources target w0 initScale maxIter ws = some r) :
+    1 ≤ r.state.nIter ∧ r.state.nIter ≤ maxIter + 1 := by
+  unfold gpa at h
+  split_ifs at h
+  simp only [Option.some.injEq] at h
+  subst h
+  exact gpaRec_nIter_from_one mirror sources initScale ws maxIter _ rfl
+
+theorem applyH_scaleAboutCentre (P : Mat n d) (s : ℚ) (i : Fin n) (j : Fin d) :
+    applyH (scaleAboutCentreH P s) P i j = s * (P i j - centroid P j) + centroid P j := by
+  unfold scaleAboutCentreH
+  rw [applyH_mul _ _ (isAff_mul (isAff_scaleH _) (isAff_translationH _)), applyH_mul _ _ (isAff_translationH _),
+    applyH_translation, applyH_scale, applyH_translation]
+  simp only [negV]; ring
+
+/-- the rescaling step keeps the centroid of the mean shape … -/
+theorem scaleAboutCentre_centroid (hn : n ≠ 0) (P : Mat n d) (s : ℚ) :
+    centroid (applyH (scaleAboutCentreH P s) P) = centroid P := by
+  have hn' : (n : ℚ) ≠ 0 := Nat.cast_ne_zero.2 hn
+  funext j
+  rw [centroid_eq]
+  simp only [applyH_scaleAboutCentre, Finset.sum_add_distrib, ← Finset.mul_sum, centroid_centred hn P j,
+    Finset.sum_const, Finset.card_univ, Fintype.card_fin, nsmul_eq_mul]
+  field_simp
+  ring
+
+/-- … and multiplies its size by the factor -/
+theorem scaleAboutCentre_norm2 (hn : n ≠ 0) (P : Mat n d) (s : ℚ) :
+    norm2 (applyH (scaleAboutCentreH P s) P) = s * s * norm2 P := by
+  simp only [norm2, frob2_sum, centred, scaleAboutCentre_centroid hn, applyH_scaleAboutCentre, Finset.mul_sum]
+  exact Finset.sum_congr rfl fun i _ => Finset.sum_congr rfl fun j _ => by ring
+
+/-- **the new target of every pass has the centroid of the mean aligned source** -/
+theorem gpaNewTarget_centroid (hn : n ≠ 0) (sources : Fin k → Mat n d) (s nn : ℚ) (trs : Fin k → HMat d) :
+    centroid (ofArr (gpaNewTarget sources s nn trs) : Mat n d) =
+      centroid (meanPts fun a => applyH (trs a) (sources a)) := by
+  rw [ofArr_gpaNewTarget, scaleAboutCentre_centroid hn]
+
+/-- **the new target of every pass has the size of the initial target** (`norm` contract for the two norms) -/
+theorem gpaNewTarget_size (hn : n ≠ 0) (sources : Fin k → Mat n d) (t0 : Mat n d) (s nn : ℚ) (trs : Fin k → HMat d)
+    (hs : s * s = norm2 t0) (hnn : nn * nn = norm2 (meanPts fun a => applyH (trs a) (sources a))) (hnn0 : nn ≠ 0) :
+    norm2 (ofArr (gpaNewTarget sources s nn trs) : Mat n d) = norm2 t0 := by
+  rw [ofArr_gpaNewTarget, scaleAboutCentre_norm2 hn, ← hnn, ← hs]
+  field_simp
+
+end Gpa
+
+/-! ### non-vacuity of the extension theorems -/
+
+section ExamplesExt
+
+/-- a zero-size source (three coinciding points): no finite uniform scale / similarity -/
+def exS0 : Mat 3 2 := fun _ j => if j = 0 then 1 else 2
+example : norm2 exS0 = 0 := by decide +kernel
+example : (fitScaleE 5 0 : Option (HMat 2)) = none := by decide +kernel
+example : (fitScaleE 4 2 : Option (HMat 2)).isSome = true := by decide +kernel
+/-- a zero-size target with a proper source is fine: everything is sent to the target point -/
+example : applyH (simFit true 0 2 one exS3 (fun _ j => if j = 0 then 1 else 2)) exS3 = fun _ j => if j = 0 then 1 else 2 :=
+  zero_size_target_collapses true 0 2 one exS3 _ (by decide +kernel) (by decide +kernel)
+
+/-- TPS: the 4-point system of `exK`/`exS4` is invertible, and an affine image of the source is fitted -/
+def exH0 : HMat 2 := fun i j => ((#[#[(2:Rat),-1,3],#[1/2,3,-4],#[0,0,1]] : Array (Array Rat)).getD i.val #[]).getD j.val 0
+example : (solveChecked (tpsL exK exS4) (one : Mat 7 7)).isSome = true := by decide +kernel
+example : (tpsFit exK exS4 (applyH exH0 exS4)).isSome = true := by decide +kernel
+example : ∃ coef Li, tpsFit exK exS4 (applyH exH0 exS4) = some coef ∧ mul (tpsL exK exS4) Li = one ∧
+    ∀ i : Fin 4, ∀ c, coef (Fin.castAdd 3 i) c = 0 := by
+  have h1 : (tpsFit exK exS4 (applyH exH0 exS4)).isSome = true := by decide +kernel
+  have h2 : (solveChecked (tpsL exK exS4) (one : Mat 7 7)).isSome = true := by decide +kernel
+  obtain ⟨coef, hc⟩ := Option.isSome_iff_exists.1 h1
+  obtain ⟨Li, hL⟩ := Option.isSome_iff_exists.1 h2
+  exact ⟨coef, Li, hc, solveChecked_spec hL, fun i c => tps_affine_no_bending exK exS4 exH0 coef hc Li (solveChecked_spec hL) i c⟩
+
+/-- TPS as coded, nothing dropped: three landmarks whose rows `(1, x, y)` are orthogonal with rational lengths and
+a zero kernel block give a 6×6 system with an exact rational SVD (singular values 3, 3, 3/2, 3/2, 3/2, 3/2) -/
+def exS5 : Mat 3 2 := fun i j => ((#[#[(2:Rat),2],#[1/2,-1],#[-1,1/2]] : Array (Array Rat)).getD i.val #[]).getD j.val 0
+def exK0 : Mat 3 3 := fun _ _ => 0
+def exU6 : Mat 6 6 := fun i j => ((#[#[(1:Rat),0,0,0,0,0],#[(0:Rat),0,1,0,0,0],#[(0:Rat),0,0,1,0,0],#[(0:Rat),1/3,0,0,2/3,2/3],#[(0:Rat),2/3,0,0,1/3,-2/3],#[(0:Rat),2/3,0,0,-2/3,1/3]] : Array (Array Rat)).getD i.val #[]).getD j.val 0
+def exVt6 : Mat 6 6 := fun i j => ((#[#[(0:Rat),0,0,1/3,2/3,2/3],#[(1:Rat),0,0,0,0,0],#[(0:Rat),0,0,2/3,1/3,-2/3],#[(0:Rat),0,0,2/3,-2/3,1/3],#[(0:Rat),1,0,0,0,0],#[(0:Rat),0,1,0,0,0]] : Array (Array Rat)).getD i.val #[]).getD j.val 0
+def exs6 : Vec 6 := fun i => (#[(3:Rat),3,3/2,3/2,3/2,3/2] : Array Rat).getD i.val 0
+def exT5 : Mat 3 2 := fun i j => ((#[#[(5:Rat),-1],#[0,7],#[2,2]] : Array (Array Rat)).getD i.val #[]).getD j.val 0
+
+example : SvdOK (tpsL exK0 exS5) exU6 exs6 exVt6 := svdContractB_sound (by decide +kernel)
+example : ∀ i : Fin 3, tpsApply (tpsFitSvd exU6 exs6 exVt6 (1/10000) exT5) (exK0 i) (exS5 i 0) (exS5 i 1) = exT5 i :=
+  tps_svd_interpolates exK0 exS5 exT5 exU6 exVt6 exs6 (1/10000) (by norm_num) (svdContractB_sound (by decide +kernel))
+    (tpsL_symm exK0 exS5 (fun _ _ => rfl)) (by decide +kernel)
+/-- …and with a (much) larger threshold the four directions of size 3/2 are dropped: `keep = 2`, the kept values
+are non-zero, and `tps_svd_miss` describes what is lost -/
+example : tpsKeep exs6 2 = 2 := by decide +kernel
+example : msub (tpsY exT5) (mul (tpsL exK0 exS5) (tpsFitSvd exU6 exs6 exVt6 2 exT5)) =
+    mul (tr exVt6) (mul (diagV (fun i => 1 - keepMask (tpsKeep exs6 2) i)) (mul exVt6 (tpsY exT5))) :=
+  tps_svd_miss exK0 exS5 exT5 exU6 exVt6 exs6 2 (svdContractB_sound (by decide +kernel))
+    (tpsL_symm exK0 exS5 (fun _ _ => rfl)) (by decide +kernel)
+
+/-- the conformity certificate holds on the two-triangle square, and fails when a third triangle overlaps them -/
+example : pwaCertB exSrc exTris = true := by decide +kernel
+example : pwaCertB exSrc ((0, 1, 3) :: exTris) = false := by decide +kernel
+/-- … so on that square every point of the closed triangle `(0,1,2)` — here a point of the shared diagonal — is mapped
+by that triangle's affine map -/
+example : pwaApply exSrc exTgt exTris (lerp (1/4) (exSrc 1) (exSrc 2)) =
+    some (triMap exSrc exTgt (0, 1, 2) (lerp (1/4) (exSrc 1) (exSrc 2))) :=
+  pwa_affine_on_closed_triangle exSrc exTgt exTris (by decide +kernel) (0, 1, 2) (by simp [exTris]) _ (by decide +kernel)
+
+/-- PWA recovery is applicable: `exTgt'` is an affine image of `exSrc` on the two-triangle square -/
+def exTgtA : ℕ → V2 := fun i => affV2 2 (-1) (1/2) 3 5 (-4) (exSrc i)
+example : pwaApply exSrc exTgtA exTris ⟨1/4, 1/2⟩ = some (affV2 2 (-1) (1/2) 3 5 (-4) ⟨1/4, 1/2⟩) := by decide +kernel
+
+/-- GPA: two sources, `exT3` is the image of `exS3` under "rotate by 90°, scale by 2, translate by (5,1)"; with
+`exT3` as the given target both first alignments are exact, the rescaled mean *is* the target and the very first
+convergence test succeeds.  All externals' answers are exact rationals. -/
+def exRot90 : Mat 2 2 := fun i j => ((#[#[(0:Rat),-1],#[1,0]] : Array (Array Rat)).getD i.val #[]).getD j.val 0
+def exGpaSources : Fin 2 → Mat 4 2 := fun a => if a.val = 0 then exS3 else exT3
+def exGpaW0 : Fin 2 → SimWit 2 := fun a => if a.val = 0 then ⟨4, 2, exRot90, one⟩ else ⟨4, 4, one, one⟩
+def exGpaWs : ℕ → GpaWit 2 2 := fun _ => ⟨4, exGpaW0⟩
+def exD8 : Vec 2 := fun _ => 8
+
+example : ((gpa false exGpaSources (some exT3) exGpaW0 4 100 exGpaWs).map fun r => (r.state.converged, r.state.nIter)) =
+    some (true, 1) := by decide +kernel
+/-- the contract hypothesis `SimWitOK` is satisfiable: these are the externals' exact answers for both sources -/
+example : SimWitOK (exGpaW0 0) (exGpaSources 0) exT3 :=
+  ⟨by decide +kernel, by decide +kernel, by decide +kernel, exD8, svdContractB_sound (by decide +kernel)⟩
+example : SimWitOK (exGpaW0 1) (exGpaSources 1) exT3 :=
+  ⟨by decide +kernel, by decide +kernel, by decide +kernel, exD8, svdContractB_sound (by decide +kernel)⟩
+/-- the other exit: no given target and `max_iterations = 1`: the plain mean of the two sources is not yet the
+rescaled mean of the aligned sources, the first test fails, the transforms are re-targeted, and the second pass hits
+`n_iterations > max_iterations`: not converged, `n_iterations = 2` (with one more pass allowed it converges) -/
+example : ((gpa false exGpaSources none exGpaW0 3 1 exGpaWs).map fun r => (r.state.converged, r.state.nIter)) =
+    some (false, 2) := by decide +kernel
+example : ((gpa false exGpaSources none exGpaW0 3 2 exGpaWs).map fun r => (r.state.converged, r.state.nIter)) =
+    some (true, 2) := by decide +kernel
+/-- the `ValueError`: one source and no target -/
+example : (gpa false (fun _ : Fin 1 => exS3) none (fun _ => default) 1 100 (fun _ => default)).isNone = true := by
   decide +kernel
 
-/-- thin-plate spline: a 4-point system with an arbitrary symmetric zero-diagonal kernel matrix is solvable -/
-def exK : Mat 4 4 := fun i j => ((#[#[(0:Rat),1,2,3],#[1,0,5,7],#[2,5,0,11],#[3,7,11,0]] : Array (Array Rat)).getD i.val #[]).getD j.val 0
-def exS4 : Mat 4 2 := fun i j => ((#[#[(0:Rat),0],#[1,0],#[0,1],#[2,3]] : Array (Array Rat)).getD i.val #[]).getD j.val 0
-example : (tpsFit exK exS4 exT).isSome = true := by decide +kernel
-
-/-- the witness of the `resync` refutation is a genuine least-squares situation: the affine fit of the witness
-exists, and is the identity -/
-example : (affineFit witS witT).map (fun H => matEqB H one) = some true := by decide +kernel
-
-end Examples
+end ExamplesExt
 
 end MenpoModel.C07
